@@ -119,6 +119,42 @@ class _Reduce(ast.NodeTransformer):
         if d == "sum" and len(n.args) == 2 and not kw:
             vals = self._args(n)
             return self._k(sum((_num(v, short(n, 40)) for v in _seq(vals[0], short(n, 40))), _num(vals[1], short(n, 40))), n)
+        if d == "divmod" and len(n.args) == 2 and not kw:
+            a, b = (_num(v, short(n, 40)) for v in self._args(n))
+            if b == 0:
+                raise me.CannotEval(f"{short(n, 40)}: ZeroDivisionError")
+            return self._k(tuple(divmod(a, b)), n)
+        # a (pure) helper function of the analysed module, made known by the rule under the reserved name __funcs__: its body is evaluated on the argument VALUES
+        f = self._helper(n.func)
+        if f is not None:
+            if any(isinstance(a, ast.Starred) for a in n.args):
+                raise me.CannotEval(f"{short(n, 40)}: starred arguments")
+            recv = [me.ev(n.func.value, self.env)] if isinstance(n.func, ast.Attribute) and n.func.value.id in self.env else []
+            return self._k(_apply(f, self._args(n), {k: me.ev(v, self.env) for k, v in kw.items()}, self.env, recv), n)
+        return n
+
+    def _helper(self, func):
+        """the helper a call resolves to: `name(...)` -> a module-level / nested function, `self.name(...)` / `cls.name(...)` -> a method of the analysed class (key '.name')"""
+        funcs = self.env.get("__funcs__") or {}
+        if isinstance(func, ast.Name):
+            return funcs.get(func.id)
+        if isinstance(func, ast.Attribute) and isinstance(func.value, ast.Name) and func.value.id in ("self", "cls"):
+            return funcs.get("." + func.attr)
+        return None
+
+    def visit_BinOp(self, n):
+        self.generic_visit(n)
+        if isinstance(n.op, ast.Mult):
+            # sequence repetition `[x] * k` (minieval multiplies numbers only); operands that cannot be evaluated here are left to minieval (short-circuit contexts)
+            try:
+                a, b = me.ev(n.left, self.env), me.ev(n.right, self.env)
+            except me.CannotEval:
+                return n
+            a, b = (a, b) if isinstance(a, (list, tuple)) else (b, a)
+            if isinstance(a, (list, tuple)) and isinstance(b, int) and not isinstance(b, bool):
+                if len(a) * max(b, 0) > 10000:
+                    raise me.CannotEval("sequence too long")
+                return self._k(a * b, n)
         return n
 
     def visit_Subscript(self, n):
@@ -145,8 +181,77 @@ class _Flow(Exception):
         self.kind, self.value = kind, value
 
 
+def _reachable(values, seen=None):
+    """ids of the containers reachable from the given values (what a callee must not mutate: the caller's objects)"""
+    seen = set() if seen is None else seen
+    for v in values:
+        if isinstance(v, (list, tuple, set, frozenset, dict, me.Record)) and id(v) not in seen:
+            seen.add(id(v))
+            _reachable(list(v.values()) if isinstance(v, dict) else (list(v.fields.values()) if isinstance(v, me.Record) else list(v)), seen)
+    return seen
+
+
+def _own_container(expr, env):
+    """the list / dict value of `expr` if it was created by the statements being evaluated (not handed in by the caller), else CannotEval: stores into it stay local"""
+    v = _ev(expr, env)
+    if not isinstance(v, (list, dict)) or id(v) in env.get("__foreign__", ()):
+        raise me.CannotEval(f"store into `{short(expr, 40)}`, which is not a list / dict created by the evaluated statements")
+    return v
+
+
+def _is_static(func) -> bool:
+    return any(dotted(d) == "staticmethod" for d in func.decorator_list) or source.enclosing_class(func) is None
+
+
+def _helpers_of(mod, owner):
+    """the helper functions an evaluated body of `owner` may call: module-level functions by name, functions nested in owner by name, methods of owner's class as '.name'"""
+    out = {n.name: n for n in mod.tree.body if isinstance(n, ast.FunctionDef)}
+    out.update({n.name: n for n in walk_body(owner) if isinstance(n, ast.FunctionDef)})
+    cls = source.enclosing_class(owner)
+    if cls is not None:
+        out.update({"." + n.name: n for n in cls.body if isinstance(n, ast.FunctionDef) and n is not owner})
+    return out
+
+
+def _apply(func, args, kwargs, env, receiver=()):
+    """value of the call func(*args, **kwargs) of a pure helper (parameters bound by position / keyword / default; the body is evaluated by _run)"""
+    depth = env.get("__depth__", 0)
+    if depth >= 4:
+        raise me.CannotEval(f"call depth in {func.name}")
+    a = func.args
+    if a.vararg or a.kwarg or isinstance(func, ast.AsyncFunctionDef) or func.decorator_list and any(dotted(d) not in ("staticmethod", "classmethod") for d in func.decorator_list):
+        raise me.CannotEval(f"signature of {func.name}")
+    pos = [x.arg for x in a.posonlyargs + a.args]
+    if pos and not _is_static(func):
+        # a method: its first parameter is the receiver; when `self` / `cls` is not among the representative values it stays unbound (a body that reads it is not evaluated)
+        if receiver:
+            args = list(receiver) + list(args)
+        else:
+            pos = pos[1:]
+    if len(args) > len(pos):
+        raise me.CannotEval(f"too many arguments for {func.name}")
+    base = {k: env[k] for k in ("__funcs__",) if k in env}
+    local = dict(zip(pos, args))
+    dflt = dict(zip(pos[::-1], a.defaults[::-1]))
+    dflt.update({x.arg: d for x, d in zip(a.kwonlyargs, a.kw_defaults) if d is not None})
+    for k, v in kwargs.items():
+        if k in local or k not in pos + [x.arg for x in a.kwonlyargs]:
+            raise me.CannotEval(f"argument {k} of {func.name}")
+        local[k] = v
+    for k in pos + [x.arg for x in a.kwonlyargs]:
+        if k not in local:
+            if k not in dflt:
+                raise me.CannotEval(f"missing argument {k} of {func.name}")
+            local[k] = _ev(dflt[k], dict(base))
+    local.update(base)
+    local["__depth__"] = depth + 1
+    local["__foreign__"] = _reachable(list(local.values()))
+    return _call_value(func, local)
+
+
 def _run(stmts, env, budget=None):
-    """Evaluate a small PURE statement list (assignments to locals, for / if, return, logging) in `env`; anything else raises CannotEval."""
+    """Evaluate a small PURE statement list (assignments to locals and into lists / dicts created by these statements, for / while / if, return, assert, logging) in `env`;
+    anything else raises CannotEval."""
     budget = budget if budget is not None else [4000]
     for st in stmts:
         budget[0] -= 1
@@ -156,6 +261,36 @@ def _run(stmts, env, budget=None):
             _bind(st.targets[0], _ev(st.value, env), env)
         elif isinstance(st, ast.AugAssign) and isinstance(st.target, ast.Name):
             env[st.target.id] = _ev(ast.BinOp(left=ast.Name(id=st.target.id, ctx=ast.Load()), op=st.op, right=st.value), env)
+        elif isinstance(st, (ast.Assign, ast.AugAssign)) and (isinstance(st, ast.AugAssign) or len(st.targets) == 1) \
+                and isinstance(tg := (st.target if isinstance(st, ast.AugAssign) else st.targets[0]), ast.Subscript) and not isinstance(tg.slice, ast.Slice):
+            box, key, val = _own_container(tg.value, env), _ev(tg.slice, env), _ev(st.value, env)
+            try:
+                if isinstance(st, ast.AugAssign):
+                    val = _ev(ast.BinOp(left=ast.Name(id="__old__", ctx=ast.Load()), op=st.op, right=ast.Name(id="__new__", ctx=ast.Load())), {"__old__": box[key], "__new__": val})
+                box[key] = val
+            except (KeyError, IndexError, TypeError) as x:
+                raise me.CannotEval(f"`{short(st, 50)}`: {type(x).__name__}")
+        elif isinstance(st, ast.Expr) and isinstance(st.value, ast.Call) and isinstance(st.value.func, ast.Attribute) and st.value.func.attr in ("append", "extend") \
+                and len(st.value.args) == 1 and not st.value.keywords and not is_logging_stmt(st):
+            box, val = _own_container(st.value.func.value, env), _ev(st.value.args[0], env)
+            if not isinstance(box, list):
+                raise me.CannotEval(f"`{short(st, 50)}`: not a list")
+            box.extend(_seq(val, short(st, 40))) if st.value.func.attr == "extend" else box.append(val)
+        elif isinstance(st, ast.While) and not st.orelse:
+            while _ev(st.test, env):
+                budget[0] -= 1
+                if budget[0] < 0:
+                    raise me.CannotEval("step budget exhausted")
+                try:
+                    _run(st.body, env, budget)
+                except _Flow as f:
+                    if f.kind == "break":
+                        break
+                    if f.kind != "continue":
+                        raise
+        elif isinstance(st, ast.Assert):
+            if not _ev(st.test, env):
+                raise me.CannotEval(f"`{short(st, 50)}` fails")
         elif isinstance(st, ast.For) and not st.orelse:
             for v in _seq(_ev(st.iter, env), short(st.iter, 40)):
                 _bind(st.target, v, env)
@@ -188,6 +323,87 @@ def _call_value(func, env):
         if f.kind == "return":
             return f.value
         raise me.CannotEval(f"`{f.kind}` outside a loop")
+    return None
+
+
+# ---- constructors ----------------------------------------------------------------------------------------------------------------------------------------------
+def _deco_names(node):
+    return [(dotted(d.func if isinstance(d, ast.Call) else d) or "").split(".")[-1] for d in node.decorator_list]
+
+
+def _record_fields(mod, cls, seen=()):
+    """[(field name, default expression or None)] in constructor order of a record class (@dataclass / typing.NamedTuple, fields of record base classes of the same module
+    first), None if cls is not such a class; AnchorMissing for a generated signature this module does not model (init=False, keyword-only fields, unknown base class)."""
+    decos = [d for d in cls.decorator_list if (dotted(d.func if isinstance(d, ast.Call) else d) or "").split(".")[-1] == "dataclass"]
+    named = any((dotted(b) or "").split(".")[-1] == "NamedTuple" for b in cls.bases)
+    if not decos and not named:
+        return None
+    for d in decos:
+        for k in (d.keywords if isinstance(d, ast.Call) else []):
+            if k.arg in ("init", "kw_only") and not (isinstance(k.value, ast.Constant) and k.value.value is (k.arg == "init")):
+                raise AnchorMissing(f"constructor generated by `@{short(d, 50)}` for {cls.name}")
+    fields = []
+    for b in cls.bases:
+        nm = (dotted(b) or "").split(".")[-1]
+        if nm in ("object", "NamedTuple"):
+            continue
+        base = mod.index().get(nm)
+        if not isinstance(base, ast.ClassDef) or base is cls or base in seen:
+            raise AnchorMissing(f"base class `{u(b)}` of the record class {cls.name}")
+        inherited = _record_fields(mod, base, tuple(seen) + (cls,))
+        if inherited is None and "__init__" in {n.name for n in base.body if isinstance(n, source.FUNC_TYPES)}:
+            raise AnchorMissing(f"record class {cls.name} derives from `{u(b)}`, which has a hand-written constructor")
+        fields = [f for f in fields if f[0] not in {x[0] for x in inherited or []}] + (inherited or [])
+    for st in cls.body:
+        name = default = None
+        if isinstance(st, ast.AnnAssign) and isinstance(st.target, ast.Name):
+            if "ClassVar" in u(st.annotation) or "KW_ONLY" in u(st.annotation) or "InitVar" in u(st.annotation):
+                if "ClassVar" in u(st.annotation):
+                    continue
+                raise AnchorMissing(f"field `{short(st, 50)}` of the record class {cls.name}")
+            name, default = st.target.id, st.value
+        elif isinstance(st, ast.Assign) and len(st.targets) == 1 and isinstance(st.targets[0], ast.Name) and not st.targets[0].id.isupper() and not st.targets[0].id.startswith("__"):
+            # N7 has turned `x: T = v` into `x = v`
+            name, default = st.targets[0].id, st.value
+        if name is None:
+            continue
+        if isinstance(default, ast.Call) and (dotted(default.func) or "").split(".")[-1] == "field":
+            kw = {k.arg: k.value for k in default.keywords}
+            if "init" in kw or "kw_only" in kw:
+                raise AnchorMissing(f"field `{short(st, 50)}` of the record class {cls.name}")
+            default = kw.get("default", ast.Constant(value=None) if "default_factory" in kw else None)
+        fields = [f for f in fields if f[0] != name] + [(name, default)]
+    return fields
+
+
+def _ctor(mod, cls, _seen=()):
+    """The constructor of a class as a function node: its own __init__, the __init__ inherited from a base class of the same module, or — for a record class (@dataclass /
+    typing.NamedTuple) — the constructor the decorator generates, synthesised from the fields: `def __init__(self, f1, f2=..): self.f1 = f1; self.f2 = f2`. None if the class
+    has none of these (AnchorMissing for a generated signature that is not modelled)."""
+    own = mod.methods(cls).get("__init__")
+    if own is not None:
+        return own
+    cached = getattr(cls, "_c02_ctor", None)
+    if cached is not None:
+        return cached
+    fields = _record_fields(mod, cls)
+    if fields is not None:
+        if not fields:
+            return None
+        sig = ", ".join(f if d is None else f"{f}=None" for f, d in fields)
+        fn = ast.parse(f"def __init__(self, {sig}):\n" + "".join(f"    self.{f} = {f}\n" for f, _ in fields)).body[0]
+        for x in ast.walk(fn):
+            if hasattr(x, "lineno"):
+                x.lineno = x.end_lineno = cls.lineno
+        fn.synthetic = True
+        cls._c02_ctor = fn
+        return fn
+    for b in cls.bases:
+        base = mod.index().get((dotted(b) or "").split(".")[-1])
+        if isinstance(base, ast.ClassDef) and base is not cls and base not in _seen:
+            got = _ctor(mod, base, tuple(_seen) + (cls,))
+            if got is not None:
+                return got
     return None
 
 
@@ -255,9 +471,9 @@ class _Alloc:
         b = self.b = _builder(drv)
         self.defs = local_defs(b)
         ta_cls = drv.cls("TaskAllocation")
-        ta_init = drv.methods(ta_cls).get("__init__")
+        ta_init = _ctor(drv, ta_cls)
         if ta_init is None or len(params_of(ta_init)) < 5:
-            raise AnchorMissing("TaskAllocation.__init__(self, task, task-local index, element-wide index, total clients)")
+            raise AnchorMissing("constructor of TaskAllocation (__init__ or record fields): (self, task, task-local index, element-wide index, total clients)")
         self.ta_params = params_of(ta_init)[1:5]
         L = None
         for n in walk_body(b):
@@ -373,6 +589,264 @@ class _Alloc:
         return True, None
 
 
+# ---- deciding on values end to end ------------------------------------------------------------------------------------------------------------------------------
+class _Sim:
+    """An end-to-end evaluation of analysed code on representative inputs (lazily, once): named facts of the property read off the RESULTS. _compute() returns
+    {fact: None (holds on every input) | witness text}; CannotEval if the code cannot be evaluated."""
+
+    what = "the code"
+    inputs = "inputs"
+
+    def __init__(self):
+        self._f, self.cases = None, 0
+
+    def _compute(self):
+        raise NotImplementedError
+
+    def verdict(self, facts):
+        """(True, text) all the given facts hold on every input; (False, witness); (None, why the evaluation is impossible)"""
+        if self._f is None:
+            try:
+                self._f = self._compute()
+            except (me.CannotEval, AnchorMissing) as x:
+                self._f = f"{self.what} cannot be evaluated on representative {self.inputs}: {x}"
+            except _Flow as x:
+                self._f = f"{self.what} cannot be evaluated on representative {self.inputs}: `{x.kind}` outside a loop"
+        if isinstance(self._f, str):
+            return None, self._f
+        bad = [self._f[k] for k in facts if self._f[k] is not None]
+        return (False, bad[0]) if bad else (True, f"{self.what} evaluated for {self.cases} representative {self.inputs}: {', '.join(facts)} hold{'s' if len(facts) == 1 else ''} on every result")
+
+
+class _Decider:
+    """Obligations decided on the located role where that role is found AND right; where the role is not found, or has another shape than the enumerated one, the obligation
+    is decided on the facts an end-to-end evaluation (sim.verdict) yields for it. Only if that evaluation is impossible too the verdict is the structural one: falsified for a
+    role that WAS located and is wrong, 'not recognised' for a role that was not located.
+    table: [(rule id, obligation name or name prefix, facts, key or None)] — the obligations `rest` states on values after a role could not be located at all."""
+
+    def __init__(self, chk, sim, table, rid=None, extra=()):
+        # rid: the one rule id of a shared rule function (the table then names none); extra: obligations that are only stated when they fail (looked up, never stated by `rest`)
+        self.chk, self.sim, self.rid, self.done = chk, sim, rid, []
+        self.table = [(rid or r, p, f, k) for r, p, f, k in table]
+        self.extra = [(rid or r, p, f, k) for r, p, f, k in extra]
+
+    def _facts(self, rid, name):
+        for r, prefix, facts, _ in self.table + self.extra:
+            if r == rid and name.startswith(prefix):
+                return facts
+        raise KeyError(f"{rid}: no facts declared for obligation `{name}`")
+
+    def ob(self, rid, name, ok, node, detail="", located=True, key=None):
+        rid = self.rid or rid
+        self.done.append((rid, name))
+        if ok:
+            return self.chk.ob(rid, name, True, node, detail, key=key)
+        v, txt = self.sim.verdict(self._facts(rid, name))
+        if v is None:
+            if located:
+                return self.chk.ob(rid, name, False, node, detail, key=key)
+            self.chk.unknown(rid, f"{name}: {detail or 'role not located'}; {txt}", node)
+            return None
+        return self.chk.ob(rid, name, v, node, (detail + " — " if detail else "") + "decided on values: " + txt, key=key)
+
+    def state(self, rid, name, ok, node, detail="", key=None):
+        """an obligation decided (either way) on the values of its located role: stated as it is"""
+        rid = self.rid or rid
+        self.done.append((rid, name))
+        return self.chk.ob(rid, name, ok, node, detail, key=key)
+
+    def unknown(self, rid, name, text, node, key=None):
+        """the role is located but its expression cannot be evaluated in isolation / has an unrecognised shape"""
+        rid = self.rid or rid
+        self.done.append((rid, name))
+        v, txt = self.sim.verdict(self._facts(rid, name))
+        if v is None:
+            self.chk.unknown(rid, text, node)
+        else:
+            self.chk.ob(rid, name, v, node, "decided on values: " + txt, key=key)
+
+    def rest(self, exc, node):
+        """after a role could not be located at all (AnchorMissing): the obligations not yet stated are decided on values, if the evaluation is possible; else 'not recognised'"""
+        v, why = self.sim.verdict(())
+        if v is None:
+            self.chk.unknown(self.table[0][0], f"not recognised: {exc}; {why}", node)
+            return
+        stated = list(self.done)
+        for i, (rid, prefix, _, key) in enumerate(self.table):
+            # (a prefix listed k times stands for k obligations of that name)
+            if sum(1 for r, n in stated if r == rid and n.startswith(prefix)) <= sum(1 for r, p, _, _ in self.table[:i] if (r, p) == (rid, prefix)):
+                self.ob(rid, prefix, False, node, f"not located: {exc}", located=False, key=key)
+
+
+class _MatrixSim(_Sim):
+    """The allocator evaluated for representative schedules by the abstract machine of rules.C01 (which interprets the matrix builder, the helpers / properties it uses and
+    the constructors of the cell classes). Facts read off the matrix (rows = clients) and off the per-step entries:
+       aligned      all rows have one length and the join points sit at the same columns (None padding completes every round)
+       own_rows     every row is a list object of its own
+       rows         the allocation with element-wide client index g sits in row g % <row count> (or, for every allocation, in row g % <the element's client count>)
+       tiling       the allocations of a sub-task with n clients have the element-wide indices s .. s + n - 1, each once (s = clients of the sub-tasks in front of it)
+       local        task-local index == element-wide index - s          total    total clients == the element's client count
+       task         every allocation between two join points belongs to a sub-task of the element between them
+       announce     the join point closing an element carries the rows of its completing / any-completing sub-tasks, and nothing else
+       elem_rows    row == g % <the element's client count>;   elem_rounds   an element takes ceil(<its sub-tasks' clients> / <its client count>) columns
+       entries      the per-step entries are the sets of the (non-empty) sub-tasks of each element, one entry per element"""
+
+    FACTS = ("aligned", "own_rows", "rows", "tiling", "local", "total", "task", "announce", "elem_rows", "elem_rounds", "entries")
+    what, inputs = "the allocator", "schedules"
+
+    def __init__(self, drv):
+        super().__init__()
+        self.drv = drv
+
+    def _find_builder(self, c01):
+        try:
+            return _builder(self.drv)
+        except AnchorMissing:
+            pass
+        both = ("JoinPoint", "TaskAllocation")
+        cands = [f for c in self.drv.classes() for f in self.drv.methods(c).values() if params_of(f) == ["self"]
+                 and set(both) <= set().union(*[c01._constructs(g, both) for g in c01._closure_in_module(self.drv, f)])]
+        outer = [f for f in cands if not any(g is not f and any(f is h for h in c01._closure_in_module(self.drv, g)) for g in cands)]
+        if len(outer) != 1:
+            raise me.CannotEval("the matrix builder is not located")
+        return outer[0]
+
+    def _compute(self):
+        import importlib
+
+        try:
+            c01 = importlib.import_module("rules.C01")
+            machine, schedules, is_prop, model = c01._Machine, c01._schedules(), c01._is_property, c01._Obj
+            soft = (c01._Cannot, c01._Raised, RecursionError)
+        except (ImportError, AttributeError, SyntaxError, TypeError) as x:
+            raise me.CannotEval(f"the abstract machine of rules.C01 is not available ({type(x).__name__}: {x})")
+        drv = self.drv
+        JP, TA = drv.cls("JoinPoint"), drv.cls("TaskAllocation")
+        b = self._find_builder(c01)
+        A = source.enclosing_class(b)
+        if A is None:
+            raise me.CannotEval("the matrix builder is not a method")
+        tp = drv.methods(A).get("tasks_per_joinpoint")
+        ta_ctor, jp_ctor = _ctor(drv, TA), _ctor(drv, JP)
+        if ta_ctor is None or jp_ctor is None or len(params_of(ta_ctor)) < 5 or len(params_of(jp_ctor)) < 4:
+            raise me.CannotEval("constructors of TaskAllocation(task, task-local index, element-wide index, total clients) / JoinPoint(id, completing clients, any-completing clients)")
+        ta_p, jp_p = params_of(ta_ctor)[1:5], params_of(jp_ctor)[2:4]
+        f = dict.fromkeys(self.FACTS)
+        rows_r = rows_e = True
+        rows_w = None
+
+        def fail(k, txt):
+            if f[k] is None:
+                f[k] = txt
+
+        def is_a(v, cls):
+            return isinstance(v, model) and v.cls is cls
+
+        def read(m, obj, fn):
+            return m.getattr(obj, fn.name) if is_prop(fn) else m.apply(m.getattr(obj, fn.name), [], {})
+
+        for name, sched in schedules:
+            try:
+                m = machine(drv)
+                alloc = m.new(A, [list(sched)])
+                M = read(m, alloc, b)
+                E = read(m, alloc, tp) if tp is not None else None
+                leaves_of = [list(m._iter(el, None)) for el in sched]
+            except soft as x:
+                raise me.CannotEval(f"schedule {name}: {type(x).__name__.strip('_')}: {x}")
+            except (AttributeError, TypeError) as x:  # the machine of rules.C01 is owned (and changed) elsewhere: an interface that moved is 'not available', not a crash
+                raise me.CannotEval(f"the abstract machine of rules.C01 is not usable as expected ({type(x).__name__}: {x})")
+            if not (isinstance(M, (list, tuple)) and M and all(isinstance(r, (list, tuple)) for r in M)):
+                raise me.CannotEval(f"schedule {name}: the matrix is not a non-empty sequence of rows")
+            self.cases += 1
+            where = f"schedule {name}"
+            rows, R = [list(r) for r in M], len(M)
+            if len({id(r) for r in M}) != R:
+                fail("own_rows", f"{where}: the {R} rows are {len({id(r) for r in M})} list object(s)")
+            jpos = [[i for i, e in enumerate(r) if is_a(e, JP)] for r in rows]
+            if E is not None:
+                want = [sorted(id(lf) for lf in leaves if lf.fields["clients"] > 0) for leaves in leaves_of]
+                got = [sorted(id(x) for x in s_) for s_ in E] if isinstance(E, (list, tuple)) and all(isinstance(s_, (set, frozenset, list, tuple)) for s_ in E) else None
+                if got != want:
+                    label = {id(lf): lf.fields.get("_label") for leaves in leaves_of for lf in leaves}
+                    fail("entries", f"{where}: per-step entries {[[label.get(i, '?') for i in s_] for s_ in got] if got is not None else short(ast.Constant(value=repr(E)), 60)}, "
+                                    f"expected {[[label[i] for i in s_] for s_ in want]}")
+            if len({len(r) for r in rows}) != 1 or any(p != jpos[0] for p in jpos) or len(jpos[0]) != len(sched) + 1 or (jpos[0] and jpos[0][0] != 0) or (rows[0] and not is_a(rows[0][-1], JP)):
+                fail("aligned", f"{where}: row lengths {[len(r) for r in rows]}, join points at columns {jpos}")
+                continue
+            for k, el in enumerate(sched):
+                leaves, e_k = leaves_of[k], el.fields["clients"]
+                starts, s = {}, 0
+                for lf in leaves:
+                    starts[id(lf)] = s
+                    s += lf.fields["clients"]
+                logical = s
+                seen = {id(lf): [] for lf in leaves}
+                ew = f"{where}, element {k + 1} ({e_k} client(s))"
+                for ri, r in enumerate(rows):
+                    for e in r[jpos[0][k] + 1:jpos[0][k + 1]]:
+                        if e is None:
+                            continue
+                        vals = [e.init_args.get(p) for p in ta_p] if is_a(e, TA) else None
+                        lf = next((x for x in leaves if vals is not None and x is vals[0]), None)
+                        if lf is None or any(isinstance(v, bool) or not isinstance(v, int) for v in vals[1:]):
+                            fail("task", f"{ew}: row {ri} holds `{e!r}`, which is not an allocation of one of the element's sub-tasks")
+                            continue
+                        seen[id(lf)].append((vals[2], vals[1], vals[3], ri))
+                for lf in leaves:
+                    s0, n, lbl = starts[id(lf)], lf.fields["clients"], lf.fields.get("_label")
+                    got = sorted(g for g, _, _, _ in seen[id(lf)])
+                    if got != list(range(s0, s0 + n)):
+                        fail("tiling", f"{ew}: task {lbl} with {n} client(s), first element-wide index {s0}, is allocated to the element-wide indices {got}")
+                    for g, l_, t_, ri in seen[id(lf)]:
+                        if l_ != g - s0:
+                            fail("local", f"{ew}: task {lbl} (first element-wide index {s0}): element-wide index {g} has the task-local index {l_}")
+                        if t_ != e_k:
+                            fail("total", f"{ew}: task {lbl}: total clients {t_}")
+                        if ri != g % R:
+                            rows_r, rows_w = False, rows_w or f"{ew}, {R} rows: element-wide index {g} of task {lbl} sits in row {ri}"
+                        if e_k <= 0 or ri != g % e_k:
+                            rows_e = False
+                            fail("elem_rows", f"{ew}: element-wide index {g} of task {lbl} sits in row {ri}: the element occupies rows {sorted({x[3] for v in seen.values() for x in v})}")
+                width = jpos[0][k + 1] - jpos[0][k] - 1
+                if width != (math.ceil(logical / e_k) if e_k > 0 else 0):
+                    fail("elem_rounds", f"{ew}: sub-tasks with {logical} client(s) in total take {width} column(s) instead of {math.ceil(logical / e_k) if e_k > 0 else 0}")
+                # what the join point behind the element carries
+                jp = rows[0][jpos[0][k + 1]]
+                for flag, p in zip(("completes_parent", "any_completes_parent"), jp_p):
+                    carried = jp.init_args.get(p)
+                    got = sorted(set(carried)) if isinstance(carried, (list, tuple, set)) else []
+                    want = sorted({x[3] for lf in leaves if lf.fields[flag] for x in seen[id(lf)]})
+                    if got != want:
+                        fail("announce", f"{ew}: the join point behind it carries {got} as `{p}`, the rows of its {flag} sub-tasks are {want}")
+        if not rows_r and not rows_e:
+            f["rows"] = rows_w
+        return f
+
+
+def _matrix_sim(drv):
+    """the (lazy) evaluation of the allocator shared by all rules that look at this module"""
+    sim = getattr(drv, "_c02_matrix_sim", None)
+    if sim is None:
+        sim = drv._c02_matrix_sim = _MatrixSim(drv)
+    return sim
+
+
+_EK = f"{_D}:Allocator.tasks_per_joinpoint:"
+_ENTRY_OBS = [
+    (None, "an entry is emitted only at a join-point column", ("entries",), None),
+    (None, "join points and per-step entries are emitted under the same emptiness condition", ("entries",), _EK + "entry-vs-joinpoint"),
+    (None, "one entry per join-point column (not one per client row)", ("entries",), None),
+    (None, "the initial join point yields no entry", ("entries",), None),
+    (None, "accumulator reset after each entry", ("entries",), None),
+    (None, "task allocations are collected into the current entry", ("entries",), None),
+]
+_ENTRY_OBS_EXTRA = [
+    (None, "an entry is emitted for every join-point column except the initial one (column 0)", ("entries",), _EK + "wrong_idx"),
+    (None, "an entry is emitted for exactly one row (the first)", ("entries",), _EK + "wrong_row"),
+]
+
+
 # ---- O2.1 -----------------------------------------------------------------------------------------------------------------------------------------------------
 def _tp_roles(tp, a, mtexts, rc_texts):
     """Roles of the loops enclosing the entry emission `a` in tasks_per_joinpoint, derived from WHAT each loop iterates (not from names):
@@ -445,9 +919,85 @@ def step_entry_agreement(chk, drv, rid):
                  "a schedule with an element left empty (by filters): fewer entries than steps -> IndexError in progress reporting / wrong task names")
     AL = drv.cls("Allocator")
     tp = drv.methods(AL).get("tasks_per_joinpoint")
-    b = _builder(drv)
     if tp is None:
         raise AnchorMissing("Allocator.tasks_per_joinpoint")
+    # allocator side: located roles, decided on the value table of the emission condition; roles that are not located / of another shape: decided on the entries the
+    # allocator yields for representative schedules
+    D = _Decider(chk, _matrix_sim(drv), _ENTRY_OBS, rid=rid, extra=_ENTRY_OBS_EXTRA)
+    try:
+        _entry_roles(D, rid, drv, AL, tp)
+    except AnchorMissing as x:
+        D.rest(x, tp)
+
+    # steps derived from join points: the driver stores the allocator's entries on itself and indexes them by its step counter
+    DR = drv.cls("Driver")
+    dm = drv.methods(DR)
+    stores = [(n, t.attr) for m_ in dm.values() for n in walk_body(m_) if isinstance(n, ast.Assign) and isinstance(n.value, ast.Attribute) and n.value.attr == tp.name
+              for t in n.targets if is_self_attr(t)]
+    if not stores:
+        chk.unknown(rid, f"no method of Driver stores the allocator's per-step entries (`<allocator>.{tp.name}`) in an attribute", DR)
+        return
+    attr = stores[0][1]
+    writers = [n for m_ in dm.values() for n in walk_body(m_) if isinstance(n, (ast.Assign, ast.AugAssign, ast.AnnAssign))
+               and any(is_self_attr(t, attr) for t in (n.targets if isinstance(n, ast.Assign) else [n.target]))]
+
+    def placeholder(n):
+        # `= None` anywhere, an empty container in the constructor: the attribute before the benchmark is prepared
+        if not isinstance(n, ast.Assign):
+            return False
+        if source.is_const(n.value) and n.value.value is None:
+            return True
+        empty = (isinstance(n.value, (ast.List, ast.Tuple)) and not n.value.elts) or (isinstance(n.value, ast.Call) and dotted(n.value.func) in ("list", "tuple") and not n.value.args and not n.value.keywords)
+        return empty and getattr(source.enclosing_func(n), "name", "") == "__init__"
+
+    other = [n for n in writers if not any(n is s for s, _ in stores) and not placeholder(n)]
+    chk.ob(rid, "driver takes its per-step entries from the allocator", not other, other[0] if other else stores[0][0],
+           "" if not other else f"`self.{attr}` is also written by `{short(other[0], 60)}`")
+    subs = [(m_, n) for m_ in dm.values() for n in walk_body(m_) if isinstance(n, ast.Subscript) and is_self_attr(n.value, attr) and not isinstance(n.slice, ast.Slice)]
+    if not subs:
+        chk.unknown(rid, f"no method of Driver indexes the per-step entries `self.{attr}`", DR)
+        return
+    # the step counter: an attribute advanced by one that starts before the first step (-1, the artificial initial join point)
+    counters = {n.target.attr for m_ in dm.values() for n in walk_body(m_) if isinstance(n, ast.AugAssign) and isinstance(n.op, ast.Add) and is_self_attr(n.target) and source.is_const(n.value, 1)}
+    counters &= {t.attr for m_ in dm.values() for n in walk_body(m_) if isinstance(n, ast.Assign) and u(n.value) == "-1" for t in n.targets if is_self_attr(t)}
+    if not counters:
+        chk.unknown(rid, "the driver's step counter (an attribute initialised to -1 and advanced by `+= 1`) is not recognised", DR)
+        return
+
+    def index_values(m_, e, depth=0):
+        """the expressions an index denotes, in terms of attributes of the driver: locals inlined, a parameter of a helper method replaced by the arguments of its call sites
+        in the class; None: not resolvable (a parameter of a method no call site of which is found)"""
+        e = inline_node(e, local_defs(m_))
+        if isinstance(e, ast.Name) and e.id in params_of(m_)[1:] and depth < 3:
+            out = []
+            for c_m in dm.values():
+                for c in walk_body(c_m):
+                    if isinstance(c, ast.Call) and isinstance(c.func, ast.Attribute) and is_self_attr(c.func) and c.func.attr == m_.name:
+                        a_ = source.bind_args(c, m_).get(e.id)
+                        got = index_values(c_m, a_, depth + 1) if a_ is not None else None
+                        if got is None:
+                            return None
+                        out += got
+            return out or None
+        return [e]
+
+    bad, unresolved = [], []
+    for m_, n in subs:
+        vals = index_values(m_, n.slice)
+        if vals is None:
+            unresolved.append(n)
+        elif not all(is_self_attr(v) and v.attr in counters for v in vals):
+            bad.append(n)
+    if unresolved and not bad:
+        chk.unknown(rid, f"`{short(unresolved[0], 60)}`: the index is a parameter whose arguments are not located in the class", unresolved[0])
+        return
+    chk.ob(rid, "progress reporting indexes the entries by the current step", not bad, bad[0] if bad else subs[0][1],
+           "" if not bad else f"`{short(bad[0], 60)}`: the index is not the driver's step counter (an attribute advanced by `+= 1`)")
+
+
+def _entry_roles(D, rid, drv, AL, tp):
+    chk = D.chk
+    b = _builder(drv)
     # accumulator: local assigned set()
     acc = None
     for n in walk_body(tp):
@@ -510,11 +1060,9 @@ def step_entry_agreement(chk, drv, rid):
 
     table = {(k, r, c, ne): emitted(k, r, c, ne) for k in ("jp", "ta", "none") for r in range(4) for c in range(5) for ne in (False, True)}
     if unknown:
-        chk.unknown(rid, f"entry emission in tasks_per_joinpoint is controlled by unrecognised condition(s) {unknown}", a)
-        return
+        raise AnchorMissing(f"entry emission in tasks_per_joinpoint is controlled by unrecognised condition(s) {unknown}")
     if unrec or "conflict" in roles.values():
-        chk.unknown(rid, f"entry emission in tasks_per_joinpoint: cannot tell whether `{short(unrec[0].iter if unrec else a, 50)}` runs over the rows or the columns of the matrix", unrec[0] if unrec else a)
-        return
+        raise AnchorMissing(f"entry emission in tasks_per_joinpoint: cannot tell whether `{short(unrec[0].iter if unrec else a, 50)}` runs over the rows or the columns of the matrix")
     row_loop = "row" in loop_roles
     nonempty = any(table["jp", r, c, True] != table["jp", r, c, False] for r in range(4) for c in range(5))
     E = {(r, c) for r in range(4) for c in range(5) if table["jp", r, c, True]}
@@ -524,13 +1072,13 @@ def step_entry_agreement(chk, drv, rid):
     rows_of = {c: {r for r, c_ in E if c_ == c} for c in cols}
     isjp = any(table.values()) and not any(v for (k, _, _, _), v in table.items() if k != "jp")
     if not nonempty and cols and cols - {0} != {1, 2, 3, 4}:
-        chk.ob(rid, "an entry is emitted for every join-point column except the initial one (column 0)", False, a,
+        D.ob(rid, "an entry is emitted for every join-point column except the initial one (column 0)", False, a,
                f"entries are emitted at join-point columns {sorted(cols)} of 0..4 only: an element left empty at the start of the schedule gets no entry, entries are shifted against the steps",
                key="esrally/driver/driver.py:Allocator.tasks_per_joinpoint:wrong_idx")
     if not nonempty and row_loop and any(len(rs) == 1 and rs != {0} for rs in rows_of.values()):
-        chk.ob(rid, "an entry is emitted for exactly one row (the first)", False, a, f"rows per join-point column: { {c: sorted(rs) for c, rs in sorted(rows_of.items())} }: a matrix with one row never gets an entry",
+        D.ob(rid, "an entry is emitted for exactly one row (the first)", False, a, f"rows per join-point column: { {c: sorted(rs) for c, rs in sorted(rows_of.items())} }: a matrix with one row never gets an entry",
                key="esrally/driver/driver.py:Allocator.tasks_per_joinpoint:wrong_row")
-    chk.ob(rid, "an entry is emitted only at a join-point column", isjp, a, f"guards: {[(u(t), p) for t, p in gs]}")
+    D.ob(rid, "an entry is emitted only at a join-point column", isjp, a, f"guards: {[(u(t), p) for t, p in gs]}")
     # builder side: is the join-point broadcast inside the schedule loop conditional on the element being non-empty?
     sched_loops = [n for n in walk_body(b) if isinstance(n, ast.For) and any(isinstance(x, ast.Call) and last_attr(x.func) == "TaskAllocation" for x in ast.walk(n))]
     if not sched_loops:
@@ -542,14 +1090,14 @@ def step_entry_agreement(chk, drv, rid):
     builder_cond = [(u(t), pol) for t, pol in guards(jp_calls[0], stop=L, path_sensitive=True)]
     builder_skips_empty = bool(builder_cond)
     ok = nonempty == builder_skips_empty
-    chk.ob(rid, "join points and per-step entries are emitted under the same emptiness condition", ok, a,
+    D.ob(rid, "join points and per-step entries are emitted under the same emptiness condition", ok, a,
            f"builder emits a join point per element {'only if non-empty' if builder_skips_empty else 'unconditionally'}; entries are emitted {'only for non-empty task sets' if nonempty else 'for every join point'}"
            + ("" if ok else " -> number of steps (join points - 1) and number of entries disagree for a schedule with an empty element"),
            key=f"{_D}:Allocator.tasks_per_joinpoint:entry-vs-joinpoint")
     once = nonempty or not row_loop or all(len(rs) == 1 for rs in rows_of.values())
-    chk.ob(rid, "one entry per join-point column (not one per client row)", once, a, "" if once else "entry appended for every client row of the join-point column")
+    D.ob(rid, "one entry per join-point column (not one per client row)", once, a, "" if once else "entry appended for every client row of the join-point column")
     init_skip = nonempty or 0 not in cols
-    chk.ob(rid, "the initial join point yields no entry", init_skip, a, "" if init_skip else "an entry is emitted for the artificial first join point: entries are shifted by one step")
+    D.ob(rid, "the initial join point yields no entry", init_skip, a, "" if init_skip else "an entry is emitted for the artificial first join point: entries are shifted by one step")
     # the accumulator is re-created / cleared whenever an entry is emitted: in the block of the append, or under the same conditions inside the same loop
     blk = logical_parent(source.enclosing_stmt(a))
     inner_loop = source.enclosing(a, ast.For)
@@ -558,59 +1106,35 @@ def step_entry_agreement(chk, drv, rid):
                   and inner_loop is not None and any(x is inner_loop for x in source.ancestors(n))]
     g_a = {(u(t_), p_) for t_, p_ in guards(a, stop=inner_loop, path_sensitive=True)}
     resets = [n for n in all_resets if logical_parent(n) is blk or {(u(t_), p_) for t_, p_ in guards(n, stop=inner_loop, path_sensitive=True)} == g_a]
+    RESET, COLLECT = "accumulator reset after each entry", "task allocations are collected into the current entry"
     if all_resets and not resets:
-        chk.unknown(rid, f"`{short(all_resets[0], 40)}` resets the accumulator under other conditions than the entry is emitted under", all_resets[0])
+        D.unknown(rid, RESET, f"`{short(all_resets[0], 40)}` resets the accumulator under other conditions than the entry is emitted under", all_resets[0])
     else:
-        chk.ob(rid, "accumulator reset after each entry", bool(resets), a, "" if resets else f"`{acc}` is neither re-created nor cleared inside the loop that appends it: every entry repeats the tasks of the earlier steps")
+        D.ob(rid, RESET, bool(resets), a, "" if resets else f"`{acc}` is neither re-created nor cleared inside the loop that appends it: every entry repeats the tasks of the earlier steps",
+             located=inner_loop is not None)
     adds = [n for n in walk_body(tp) if isinstance(n, ast.Call) and u(n.func) == f"{acc}.add" and len(n.args) == 1]
     if not adds:
-        chk.unknown(rid, f"no `{acc}.add(...)` in tasks_per_joinpoint: how task allocations are collected into the current entry is not recognised", tp)
+        D.unknown(rid, COLLECT, f"no `{acc}.add(...)` in tasks_per_joinpoint: how task allocations are collected into the current entry is not recognised", tp)
+        return
+    # collected for every task allocation (any row, any column) and for nothing else — decided on the same value table as the emission; the collected value is the
+    # attribute the TaskAllocation constructor stores its first parameter (the task) in
+    ags = guards(adds[0], path_sensitive=True)
+    n_unknown = len(unknown)
+    tbl = {(k, r, c, ne): emitted(k, r, c, ne, ags) for k in ("jp", "ta", "none") for r in range(3) for c in range(3) for ne in (False, True)}
+    ta_init = _ctor(drv, drv.cls("TaskAllocation"))
+    task_attr = None
+    if ta_init is not None and len(params_of(ta_init)) >= 2:
+        task_attr = next((n.targets[0].attr for n in walk_body(ta_init) if isinstance(n, ast.Assign) and len(n.targets) == 1 and is_self_attr(n.targets[0]) and u(n.value) == params_of(ta_init)[1]), None)
+    collected = inline_node(adds[0].args[0], local_defs(tp))  # `task = allocation.task; current_tasks.add(task)`
+    if len(unknown) > n_unknown:
+        D.unknown(rid, COLLECT, f"collection of the task allocations `{short(adds[0], 40)}` is controlled by unrecognised condition(s) {unknown[n_unknown:]}", adds[0])
+    elif task_attr is None:
+        D.unknown(rid, COLLECT, "the attribute in which the constructor of TaskAllocation keeps its first parameter (the task) is not located", adds[0])
+    elif not isinstance(collected, ast.Attribute):
+        D.unknown(rid, COLLECT, f"`{short(adds[0], 50)}`: the collected value is not an attribute of the matrix entry", adds[0])
     else:
-        # collected for every task allocation (any row, any column) and for nothing else — decided on the same value table as the emission; the collected value is the
-        # attribute the TaskAllocation constructor stores its first parameter (the task) in
-        ags = guards(adds[0], path_sensitive=True)
-        n_unknown = len(unknown)
-        tbl = {(k, r, c, ne): emitted(k, r, c, ne, ags) for k in ("jp", "ta", "none") for r in range(3) for c in range(3) for ne in (False, True)}
-        ta_init = drv.methods(drv.cls("TaskAllocation")).get("__init__")
-        task_attr = None
-        if ta_init is not None and len(params_of(ta_init)) >= 2:
-            task_attr = next((n.targets[0].attr for n in walk_body(ta_init) if isinstance(n, ast.Assign) and len(n.targets) == 1 and is_self_attr(n.targets[0]) and u(n.value) == params_of(ta_init)[1]), None)
-        if len(unknown) > n_unknown or task_attr is None:
-            chk.unknown(rid, f"collection of the task allocations `{short(adds[0], 40)}` is controlled by unrecognised condition(s) {unknown[n_unknown:]}", adds[0])
-        else:
-            ok = all(v == (k == "ta") for (k, _, _, _), v in tbl.items()) and isinstance(adds[0].args[0], ast.Attribute) and adds[0].args[0].attr == task_attr
-            chk.ob(rid, "task allocations are collected into the current entry", ok, adds[0], f"`{short(adds[0], 50)}` under {[(u(t_), p_) for t_, p_ in ags]}")
-    # steps derived from join points: the driver stores the allocator's entries on itself and indexes them by its step counter
-    D = drv.cls("Driver")
-    dm = drv.methods(D)
-    stores = [(n, t.attr) for m_ in dm.values() for n in walk_body(m_) if isinstance(n, ast.Assign) and isinstance(n.value, ast.Attribute) and n.value.attr == tp.name
-              for t in n.targets if is_self_attr(t)]
-    if not stores:
-        chk.unknown(rid, f"no method of Driver stores the allocator's per-step entries (`<allocator>.{tp.name}`) in an attribute", D)
-        return
-    attr = stores[0][1]
-    writers = [n for m_ in dm.values() for n in walk_body(m_) if isinstance(n, (ast.Assign, ast.AugAssign, ast.AnnAssign))
-               and any(is_self_attr(t, attr) for t in (n.targets if isinstance(n, ast.Assign) else [n.target]))]
-    other = [n for n in writers if not any(n is s for s, _ in stores) and not (isinstance(n, ast.Assign) and source.is_const(n.value) and n.value.value is None)]
-    chk.ob(rid, "driver takes its per-step entries from the allocator", not other, other[0] if other else stores[0][0],
-           "" if not other else f"`self.{attr}` is also written by `{short(other[0], 60)}`")
-    subs = [(m_, n) for m_ in dm.values() for n in walk_body(m_) if isinstance(n, ast.Subscript) and is_self_attr(n.value, attr)]
-    if not subs:
-        chk.unknown(rid, f"no method of Driver indexes the per-step entries `self.{attr}`", D)
-        return
-    # the step counter: an attribute advanced by one that starts before the first step (-1, the artificial initial join point)
-    counters = {n.target.attr for m_ in dm.values() for n in walk_body(m_) if isinstance(n, ast.AugAssign) and isinstance(n.op, ast.Add) and is_self_attr(n.target) and source.is_const(n.value, 1)}
-    counters &= {t.attr for m_ in dm.values() for n in walk_body(m_) if isinstance(n, ast.Assign) and u(n.value) == "-1" for t in n.targets if is_self_attr(t)}
-    if not counters:
-        chk.unknown(rid, "the driver's step counter (an attribute initialised to -1 and advanced by `+= 1`) is not recognised", D)
-        return
-    bad = []
-    for m_, n in subs:
-        sl = inline_node(n.slice, local_defs(m_))
-        if not (is_self_attr(sl) and sl.attr in counters):
-            bad.append(n)
-    chk.ob(rid, "progress reporting indexes the entries by the current step", not bad, bad[0] if bad else subs[0][1],
-           "" if not bad else f"`{short(bad[0], 60)}`: the index is not the driver's step counter (an attribute advanced by `+= 1`)")
+        ok = all(v == (k == "ta") for (k, _, _, _), v in tbl.items()) and collected.attr == task_attr
+        D.ob(rid, COLLECT, ok, adds[0], f"`{short(adds[0], 50)}` under {[(u(t_), p_) for t_, p_ in ags]}")
 
 
 def client_floor_rule(chk, rid, drv):
@@ -737,9 +1261,9 @@ def _assign_pairs(st):
 
 def _joinpoint_lists(A):
     """the two client-list arguments (clients of the completing task, clients of `any` tasks: constructor positions 2 and 3) of the JoinPoint built inside the per-element loop"""
-    jp_init = A.drv.methods(A.drv.cls("JoinPoint")).get("__init__")
+    jp_init = _ctor(A.drv, A.drv.cls("JoinPoint"))
     if jp_init is None or len(params_of(jp_init)) < 4:
-        raise AnchorMissing("JoinPoint.__init__(self, id, completing clients, any-completing clients)")
+        raise AnchorMissing("constructor of JoinPoint (__init__ or record fields): (self, id, completing clients, any-completing clients)")
     p1, p2 = params_of(jp_init)[2:4]
     for c in [n for n in ast.walk(A.L) if isinstance(n, ast.Call) and last_attr(n.func) == "JoinPoint"]:
         bd = source.bind_args(c, jp_init)
@@ -850,176 +1374,91 @@ def _round_robin(share, slots):
     return [share // slots + (1 if w < share % slots else 0) for w in range(slots)]
 
 
-def run(chk):
-    repo = chk.repo
-    drv, trk = repo.module(_D), repo.module(_T)
-    chk.use(drv, trk)
-    chk.explanation = (
-        "Decides the allocation arithmetic on roles located by data flow and on representative values: join-point / entry agreement (the emission condition of a per-step entry "
-        "evaluated over entry kind x row x column x accumulator state); matrix rows addressed modulo the row count (the same modulus for tasks and padding) and, decided on "
-        "representative (element clients, row count) values, whether that modulus and the padding bound are the element's own client count (O2.8, client cap of a parallel element); per-task "
-        "client ranges telescope (the client loop evaluated for representative offsets / client counts: element-wide indices s..s+n-1, task-local 0..n-1, offset advanced by n); worker "
-        "partition tiles 0..n-1 contiguously (range(c, c+k), c += k), per-host share = min(ceil(n/hosts), remaining) evaluated over a simulated host loop, with remaining decreased by "
-        "the same amount, round-robin per core; worker ids are list positions; a parallel element's client count is computed on demand from its current sub-tasks (evaluated)."
-    )
-    chk.not_decided = "rectangularity of the matrix for all shapes (None-padding arithmetic), the per-host ceil split summing to the total for all inputs (guarded by a run-time assert), balance across hosts."
-    step_entry_agreement(chk, drv, "O2.1")
-    A = _Alloc(drv)
-    b, defs, L, elem, matrix, rc_text, SL, CL, sub, svar = A.b, A.defs, A.L, A.elem, A.matrix, A.rc_text, A.SL, A.CL, A.sub, A.svar
+# ---- O2.4 worker partition ------------------------------------------------------------------------------------------------------------------------------
+def _sim_host_cases():
+    """(client count, hosts) inputs for the end-to-end evaluation of the worker assignment: single / several hosts, uneven cores, fewer clients than hosts or than cores"""
+    out = []
+    for cores in ((1,), (4,), (2, 2), (2, 8), (3, 3), (8, 2, 3), (2, 2, 2, 2), (4, 4, 4)):
+        for n_ in (1, 2, 5, 7, 9, 16):
+            out.append((n_, [{"host": f"h{i}", "cores": c} for i, c in enumerate(cores)]))
+    return out
 
-    # ---- O2.2 row index reduced -------------------------------------------------------------------------------------------------------
-    chk.rule("O2.2", "every row subscript of the matrix inside the per-client loop is `<client index> % <row count>` (or `% <the element's own client count>`, which never exceeds the "
-             "row count: see O2.8), and the None padding wraps at the same modulus; every row of the matrix is a list of its own", 3,
-             "over-committed parallel element inside a schedule with a wider element: rows addressed modulo the wrong count -> ragged matrix / IndexError")
-    row_mods = []  # (append to a matrix row inside the client loops, the `i % m` its row index is defined as or None)
-    ta_apps = []
-    for n in ast.walk(L):
-        if isinstance(n, ast.Call) and last_attr(n.func) == "append" and isinstance(n.func, ast.Attribute) and isinstance(n.func.value, ast.Subscript) and u(n.func.value.value) == matrix:
-            ta_apps.append(n)
-    ldefs = {}
-    for n in ast.walk(L):
-        if isinstance(n, ast.Assign) and len(n.targets) == 1 and isinstance(n.targets[0], ast.Name):
-            ldefs.setdefault(n.targets[0].id, []).append(n.value)
-    n_checked = 0
-    for a in ta_apps:
-        idx = a.func.value.slice
-        loop = source.enclosing(a, ast.For)
-        if loop is L or loop is None:
-            continue
-        if isinstance(loop.iter, ast.Call) and last_attr(loop.iter.func) == "range" and len(loop.iter.args) in (1, 2) and inline(loop.iter.args[-1], defs) == rc_text \
-                and isinstance(idx, ast.Name) and isinstance(loop.target, ast.Name) and idx.id == loop.target.id:
-            # index is a loop variable bounded above by the row count (join-point broadcast / None padding)
-            continue
-        n_checked += 1
-        d = ldefs.get(idx.id, [None])[0] if isinstance(idx, ast.Name) else idx
-        is_mod = isinstance(d, ast.BinOp) and isinstance(d.op, ast.Mod)
-        # in range either way: reduced modulo the row count itself, or modulo a bound decided (on values) to be the element's own client count, which is at most the row count
-        ok = is_mod and (u(A.prep(d.right)) == "__rows__" or _is_element_count(d.right, A))
-        row_mods.append((a, d if is_mod else None, d))
-        chk.ob("O2.2", f"row subscript of `{short(a, 50)}`", ok, a, f"index `{u(idx)}` = `{u(d) if d is not None else '?'}`; row count = {rc_text}"
-               + ("" if ok else " — not reduced modulo the row count (nor modulo the element's own client count)"))
-    if n_checked == 0:
-        raise AnchorMissing(f"append of the task allocation to a row `{matrix}[<row>]` inside the client loop")
-    chk.ob("O2.2", "row subscripts located", n_checked >= 1, L, f"{n_checked} non-broadcast row subscript(s)")
-    # every modulus applied to the element's client indices in the loop (row subscript, None padding; also inside helpers called from the loop)
-    wraps = _wrap_bounds(A)
-    mods = [(n, right) for n, _, right in wraps if isinstance(n.op, ast.Mod)]
-    def canon(e):
-        # text of an expression with locals inlined and every spelling of the row count (`self.clients`, `len(<matrix>)`, a local bound to either) unified
-        return u(A.prep(e))
 
-    ok = bool(mods) and all(canon(r_) == "__rows__" for _, r_ in mods)
-    if not ok and mods and row_mods and all(d is not None for _, d, _ in row_mods):
-        # rows that wrap at the element's own client count: every other modulus of the loop (the padding) must then be that same bound
-        sub_ = {canon(d.right) for _, d, _ in row_mods}
-        ok = len(sub_) == 1 and all(_is_element_count(d.right, A) for _, d, _ in row_mods) and all(canon(r_) in sub_ for _, r_ in mods)
-    if mods:
-        chk.ob("O2.2", "all moduli in the schedule loop are the row count", ok, mods[0][0], f"{sorted({u(r_) for _, r_ in mods})}")
-    else:
-        # no modulus at all in the loop: the unreduced row subscript(s) were reported above
-        chk.ob("O2.2", "all moduli in the schedule loop are the row count", all(d is not None for _, d, _ in row_mods), L, "no modulus on the client indices in the schedule loop")
-    # rows are distinct lists (a `[[]] * n` matrix has ONE row object: every client would get every task)
-    if A.matrix_form == "comprehension":
-        fresh = _is_fresh_list(A.matrix_stmt.value.elt) or isinstance(A.matrix_stmt.value.elt, (ast.List, ast.ListComp))
-        chk.ob("O2.2", "every row of the matrix is a list of its own", fresh, A.matrix_stmt, short(A.matrix_stmt, 70))
-    else:
-        fills = [n for n in walk_body(b) if isinstance(n, ast.Assign) and len(n.targets) == 1 and isinstance(n.targets[0], ast.Subscript) and u(n.targets[0].value) == matrix
-                 and (_is_fresh_list(n.value) or isinstance(n.value, ast.List)) and not any(x is L for x in source.ancestors(n))]
-        full = [n for n in fills if (lp := source.enclosing(n, ast.For)) is not None and _range_bound(lp.iter) is not None and inline(_range_bound(lp.iter), defs) == rc_text
-                and isinstance(lp.target, ast.Name) and u(n.targets[0].slice) == lp.target.id]
-        rep = A.matrix_stmt.value.left if isinstance(A.matrix_stmt.value.left, ast.List) else A.matrix_stmt.value.right
-        if full:
-            chk.ob("O2.2", "every row of the matrix is a list of its own", True, full[0], f"`{short(A.matrix_stmt, 50)}` filled by `{short(full[0], 40)}` for every row")
-        elif isinstance(rep.elts[0], (ast.List, ast.ListComp, ast.Call)):
-            chk.ob("O2.2", "every row of the matrix is a list of its own", False, A.matrix_stmt, f"`{short(A.matrix_stmt, 60)}` repeats ONE list object for every row: each client gets the tasks of all clients")
-        else:
-            chk.unknown("O2.2", f"rows of `{short(A.matrix_stmt, 50)}`: the statement that gives every row its own list is not recognised", A.matrix_stmt)
+class _WaSim(_Sim):
+    """End-to-end evaluation of the worker assignment function on representative inputs (lazily, once): the facts of the property's client-to-worker clause read off the RESULT.
+       tiling  the ids handed out, in host / worker order, are 0, 1, 2, ... (contiguous ascending ranges, nothing twice, nothing skipped)
+       share   host i gets min(ceil(n / hosts), what is left) clients (so all n are placed)
+       slots   one worker (list) per core of the host
+       even    the worker loads of a host differ by at most one client"""
 
-    # ---- O2.3 per-task tiling ----------------------------------------------------------------------------------------------------------------
-    chk.rule("O2.3", "for each sub-task the client loop runs over the element-wide client indices s .. s + <sub-task>.clients - 1 (each once) and s is advanced by the same <sub-task>.clients "
-             "after the loop; task-local index == i - s; global index == i; total clients == <element>.clients; s starts at 0 for each element (decided on the values the extracted loop "
-             "bounds / constructor arguments take for representative offsets and client counts)", 6,
-             "parallel element with two tasks: a client index of the second task is used twice or never")
-    i_txt = inline(A.arg("global"), A.cdefs) if A.arg("global") is not None else A.loopvar
-    dividends = [d.left if d is not None else raw for _, d, raw in row_mods if (d is not None or raw is not None)]
-    try:
-        ok, w = A.holds_all(lambda c: len(A.iterations(*c)) == c[1] and all(A.series(dv, c) == list(range(c[0], c[0] + c[1])) for dv in dividends))
-        detail = u(CL.iter) + ("" if ok else f": {len(A.iterations(*w))} iteration(s), row dividend(s) {[A.series(dv, w) for dv in dividends]} for a {_case_txt(w)}")
-        chk.ob("O2.3", "client loop == range(s, s + sub_task.clients)", ok, CL, detail)
-    except me.CannotEval as x:
-        chk.unknown("O2.3", f"client loop `{u(CL.iter)}` cannot be evaluated on representative values ({x})", CL)
-    adv_ok, adv_detail = _offset_advance(A)
-    if adv_ok is None:
-        chk.unknown("O2.3", adv_detail, SL)
-    else:
-        chk.ob("O2.3", "s += sub_task.clients after the client loop (same count)", adv_ok, A.advances[0] if A.advances else SL, adv_detail)
-    ini = _offset_init(A)
-    chk.ob("O2.3", "s starts at 0 for each schedule element", ini is not None, ini if ini is not None else L, "" if ini is not None else f"no `{svar} = 0` in the per-element block before the sub-task loop")
-    tk, loc, gl, tot = A.arg("task"), A.arg("local"), A.arg("global"), A.arg("total")
-    if None in (tk, loc, gl, tot):
-        raise AnchorMissing("arguments of TaskAllocation(...) in the client loop")
-    chk.ob("O2.3", "task := the sub-task", inline(tk, A.cdefs) == sub, A.tac, f"task = {u(tk)}")
-    try:
-        ok, w = A.holds_all(lambda c: [lv - (gv - c[0]) for lv, gv in zip(A.series(loc, c), A.series(gl, c))] == [0] * len(A.iterations(*c)) and A.series(loc, c) == list(range(len(A.iterations(*c)))))
-        chk.ob("O2.3", "task-local client index == i - s", ok, A.tac, u(loc) + ("" if ok else f" = {A.series(loc, w)} where the element-wide indices are {A.series(gl, w)} for a {_case_txt(w)}"))
-        ok, w = A.holds_all(lambda c: A.series(gl, c) == list(range(c[0], c[0] + len(A.iterations(*c)))))
-        chk.ob("O2.3", "global client index == i", ok, A.tac, u(gl) + ("" if ok else f" = {A.series(gl, w)} for a {_case_txt(w)}"))
-        ok, w = A.holds_all(lambda c: all(v == c[2] for v in A.series(tot, c)))
-        chk.ob("O2.3", "total clients == the element's client count", ok, A.tac, u(tot) + ("" if ok else f" = {A.series(tot, w)} for a {_case_txt(w)}"))
-    except me.CannotEval as x:
-        chk.unknown("O2.3", f"arguments of `{short(A.tac, 60)}` cannot be evaluated over the client loop ({x})", A.tac)
-    from rules.C05 import partition_call_rule
+    inputs = "(hosts, client count) inputs"
 
-    partition_call_rule(chk, "O2.3", drv)
-    other_s = [n for n in ast.walk(SL) if isinstance(n, (ast.Assign, ast.AugAssign)) and any(isinstance(x, ast.Name) and x.id == svar for t in (n.targets if isinstance(n, ast.Assign) else [n.target]) for x in ast.walk(t))
-               and not any(n is x for x in A.advances[:1])]
-    chk.ob("O2.3", "s not written elsewhere inside the sub-task loop", not other_s, other_s[0] if other_s else SL, "")
+    def __init__(self, wa, funcs):
+        super().__init__()
+        self.wa, self.funcs, self.what = wa, funcs, wa.name
 
-    # ---- O2.7 completing clients / widest element ----------------------------------------------------------------------------------------------------
-    chk.rule("O2.7", "the clients recorded on a join point as executing the completing task (or an `any` task) are the PHYSICAL row indices of exactly those sub-tasks; the row count is the "
-             "maximum client count over all schedule elements (at least 1)", 4,
-             "completed-by waits for the wrong clients (over-committed element), or the matrix has fewer rows than the widest element")
-    jp, jlists = _joinpoint_lists(A)
-    row_idx = [a.func.value.slice for a, _, _ in row_mods]
-    recs = []
-    for lst in jlists:
-        r_ = [n for n in ast.walk(CL) if isinstance(n, ast.Call) and last_attr(n.func) == "append" and isinstance(n.func, ast.Attribute) and u(n.func.value) == u(lst) and len(n.args) == 1]
-        if not r_:
-            raise AnchorMissing(f"append to the join-point client list `{u(lst)}` inside the client loop")
-        recs.append(r_)
-    try:
-        problems = []
-        for k, r_ in enumerate(recs):
-            for app in r_:
-                # recorded value == the row the allocation is appended to
-                okv, w = A.holds_all(lambda c: all(A.series(app.args[0], c) == A.series(ri, c) for ri in row_idx))
-                if not okv:
-                    problems.append(f"`{short(app, 60)}` records {A.series(app.args[0], w)} where the rows are {A.series(row_idx[0], w)} for a {_case_txt(w)}")
-            # recorded under the sub-task's own flag
-            for cp, acp in ((True, False), (False, True), (False, False), (True, True)):
-                its = A.iterations(2, 1, 4, 6, flags=(cp, acp))
-                if not its:
-                    raise me.CannotEval("the client loop does not run for a sub-task with one client")
-                env = its[0]
-                hit = sum(1 for app in r_ if all(bool(A.value(t, env)) == pol for t, pol in guards(app, stop=CL, path_sensitive=True)))
-                want = (1 if cp else 0) if k == 0 else (None if (cp and acp) else (1 if acp else 0))
-                if want is not None and hit != want:
-                    problems.append(f"`{u(jlists[k])}` gets {hit} entr{'y' if hit == 1 else 'ies'} per client of a sub-task with completes_parent={cp}, any_completes_parent={acp} (expected {want})")
-        chk.ob("O2.7", "completing / any-completing clients recorded by physical index under the sub-task's own flag", not problems, recs[0][0], "; ".join(problems[:2]) or f"{[u(x) for x in jlists]}")
-    except me.CannotEval as x:
-        chk.unknown("O2.7", f"recording of the completing clients cannot be evaluated on representative values ({x})", recs[0][0])
-    joinpoint_lists_reset(chk, "O2.7", drv)
-    client_floor_rule(chk, "O2.7", drv)
+    def _compute(self):
+        f = {"tiling": None, "share": None, "slots": None, "even": None}
+        for n_, hosts in _sim_host_cases():
+            res = _apply(self.wa, [hosts, n_], {}, {"__funcs__": self.funcs})
+            if not isinstance(res, list) or len(res) != len(hosts):
+                raise me.CannotEval("the result is not a list with one entry per host")
+            ids, left = [], n_
+            for i, (h, r) in enumerate(zip(hosts, res)):
+                vals = list(r.values()) if isinstance(r, dict) else (list(r.fields.values()) if isinstance(r, me.Record) else list(r) if isinstance(r, (list, tuple)) else [])
+                lists = [v for v in vals if isinstance(v, list)]
+                if len(lists) != 1 or any(not isinstance(w, list) for w in lists[0]):
+                    raise me.CannotEval("the per-host entry of the result does not hold exactly one list of workers (lists of client ids)")
+                workers = lists[0]
+                case = f"host {i + 1} of {len(hosts)} ({h['cores']} cores), {n_} clients"
+                sizes = [len(w) for w in workers]
+                want = min(math.ceil(n_ / len(hosts)), left)
+                left -= want
+                if sum(sizes) != want and f["share"] is None:
+                    f["share"] = f"{case}: the host gets {sum(sizes)} client(s), expected {want}"
+                if len(workers) != h["cores"] and f["slots"] is None:
+                    f["slots"] = f"{case}: {len(workers)} worker(s)"
+                if sizes and max(sizes) - min(sizes) > 1 and f["even"] is None:
+                    f["even"] = f"{case}: the workers get {sizes} clients"
+                ids += [c for w in workers for c in w]
+            if ids != list(range(len(ids))) and f["tiling"] is None:
+                f["tiling"] = f"{n_} clients on hosts with {[h['cores'] for h in hosts]} cores: the client ids handed out are {ids}"
+            self.cases += 1
+        return f
 
-    # ---- O2.4 worker partition tiles ---------------------------------------------------------------------------------------------------------------------
-    chk.rule("O2.4", "worker assignment: client ids come from range(c, c + k) with c += k (same k) afterwards, c starts at 0 and is written nowhere else; per-host share == "
-             "min(ceil(n / hosts), remaining) and remaining -= that share; worker slots per host == its core count; per-host split is round-robin count[i % slots] += 1", 8,
-             "client ids lost/duplicated or ids >= n handed out (e.g. 5 clients on 4 hosts), more than one worker per core, uneven worker loads")
+
+_WA_OBS = [
+    ("O2.4", "ids from range(c, c + k)", ("tiling",), None),
+    ("O2.4", "c += k after the id loop (same k)", ("tiling",), None),
+    ("O2.4", "c starts at 0, no other writer", ("tiling",), None),
+    ("O2.4", "every id in the range is assigned (no filter)", ("tiling", "share"), None),
+    ("O2.4", "k ranges over the per-worker client counts", ("tiling", "share", "even"), None),
+    ("O2.4", "round-robin: count[i % slots] += 1 for i in range(share)", ("even", "share"), None),
+    ("O2.4", "worker slots per host == the host's core count", ("slots",), None),
+    ("O2.4", "one counter per worker slot", ("slots",), None),
+    ("O2.4", "per-host share == min(ceil(n / hosts), remaining)", ("share",), None),
+    ("O2.4", "remaining -= share (the same amount that was assigned)", ("share",), None),
+    ("O2.4", "remaining starts at the client count", ("share",), None),
+]
+
+
+def worker_partition(chk, rid, drv):
+    """O2.4: the client-to-worker partition of calculate_worker_assignments. Roles (id site, id counter, per-worker counts, host loop, remaining count) are located by data flow
+    and decided on values in isolation; a role that is not located / not of an enumerated shape is decided on the result of the whole function for representative inputs."""
     wa = drv.func("calculate_worker_assignments")
     if len(params_of(wa)) < 2:
         raise AnchorMissing("calculate_worker_assignments(<hosts>, <client count>)")
     hosts_p, count_p = params_of(wa)[:2]
     wdefs = local_defs(wa)
+    wfuncs = _helpers_of(drv, wa)  # (pure) helpers the expressions of the function may call: evaluated on the argument values
+    D = _Decider(chk, _WaSim(wa, wfuncs), _WA_OBS, rid=rid)
+    try:
+        _worker_partition_roles(D, drv, wa, hosts_p, count_p, wdefs, wfuncs)
+    except AnchorMissing as x:
+        D.rest(x, wa)
+
+
+def _worker_partition_roles(D, drv, wa, hosts_p, count_p, wdefs, wfuncs):
     # the id site: `for i in range(c, c + k): <list>.append(i)` or the same list built in one expression (list(range(c, c + k)), [*range(..)], [i for i in range(..)])
     sites = []
     for n in walk_body(wa):
@@ -1050,40 +1489,45 @@ def run(chk):
         if isinstance(kiter, ast.Call) and dotted(kiter.func) == "enumerate" and len(kiter.args) == 1 and isinstance(kt, ast.Tuple) and len(kt.elts) == 2:
             kt, kiter = kt.elts[1], kiter.args[0]
         kname = kt.id if isinstance(kt, ast.Name) else None
-    if kname is None or not isinstance(kiter, ast.Name):
-        raise AnchorMissing("loop over the per-worker client counts (a local list) around the id site")
+    if kname is None:
+        raise AnchorMissing("loop over the per-worker client counts around the id site")
     ck_cases = [(0, 0), (0, 3), (4, 1), (7, 2)]
 
     def ck(expr, c, k):
-        return _ev(inline_node(expr, wdefs), {cvar: c, kname: k})
+        return _ev(inline_node(expr, wdefs), {cvar: c, kname: k, "__funcs__": wfuncs})
 
+    name = "ids from range(c, c + k)"
     try:
         bad = next(((c, k) for c, k in ck_cases if ck(c1, c, k) != c + k), None)
-        chk.ob("O2.4", "ids from range(c, c + k)", bad is None, IL, u(rng) + ("" if bad is None else f": with {cvar} = {bad[0]} and a worker with {bad[1]} client(s) the ids end before {ck(c1, *bad)} instead of {bad[0] + bad[1]}"))
+        D.ob("O2.4", name, bad is None, IL, u(rng) + ("" if bad is None else f": with {cvar} = {bad[0]} and a worker with {bad[1]} client(s) the ids end before {ck(c1, *bad)} instead of {bad[0] + bad[1]}"))
     except me.CannotEval as x:
-        chk.unknown("O2.4", f"upper bound of the client ids `{u(rng)}` cannot be evaluated from the id counter and the worker's client count `{kname}` ({x})", IL)
-    par = logical_parent(IL)
-    sibs = flat(par.body) if hasattr(par, "body") else []
-    pos = next((i for i, st in enumerate(sibs) if st is IL), None)
-    adv = [n for n in sibs if isinstance(n, (ast.AugAssign, ast.Assign)) and any(u(t) == cvar for t in ([n.target] if isinstance(n, ast.AugAssign) else n.targets))]
-    if len(adv) == 1 and pos is not None and [i for i, st in enumerate(sibs) if st is adv[0]][0] > pos and (isinstance(adv[0], ast.Assign) or isinstance(adv[0].op, ast.Add)):
+        D.unknown("O2.4", name, f"upper bound of the client ids `{u(rng)}` cannot be evaluated from the id counter and the worker's client count `{kname}` ({x})", IL)
+    # the counter moves on by k: the statement(s) of the worker loop (outside the id site) that write it
+    name = "c += k after the id loop (same k)"
+    in_il = {id(x) for x in ast.walk(IL)}
+    adv = [n for n in ast.walk(kl) if id(n) not in in_il and isinstance(n, (ast.AugAssign, ast.Assign)) and any(u(t) == cvar for t in ([n.target] if isinstance(n, ast.AugAssign) else n.targets))]
+    kblk = flat(kl.body)
+    top = next((i for i, st in enumerate(kblk) if any(x is IL for x in ast.walk(st))), None)
+    if len(adv) == 1 and top is not None and any(adv[0] is st for st in kblk[top + 1:]) and (isinstance(adv[0], ast.Assign) or isinstance(adv[0].op, ast.Add)):
+        # one unconditional statement of the worker loop's own block, after the statement that holds the id site
         try:
             if isinstance(adv[0], ast.AugAssign):
                 bad = next(((c, k) for c, k in ck_cases if ck(adv[0].value, c, k) != k), None)
             else:
                 bad = next(((c, k) for c, k in ck_cases if ck(adv[0].value, c, k) != c + k), None)
-            chk.ob("O2.4", "c += k after the id loop (same k)", bad is None, adv[0], short(adv[0], 50) + ("" if bad is None else f": after a worker with {bad[1]} client(s) the counter does not move on by {bad[1]}"))
+            D.ob("O2.4", name, bad is None, adv[0], short(adv[0], 50) + ("" if bad is None else f": after a worker with {bad[1]} client(s) the counter does not move on by {bad[1]}"))
         except me.CannotEval as x:
-            chk.unknown("O2.4", f"`{short(adv[0], 50)}` cannot be evaluated from the id counter and the worker's client count ({x})", adv[0])
+            D.unknown("O2.4", name, f"`{short(adv[0], 50)}` cannot be evaluated from the id counter and the worker's client count ({x})", adv[0])
+    elif adv:
+        D.ob("O2.4", name, False, adv[0], f"{[short(n, 40) for n in adv]}: not ONE unconditional statement of the worker loop after the id site")
     else:
-        chk.ob("O2.4", "c += k after the id loop (same k)", False, adv[0] if adv else IL,
-               f"{[short(n, 40) for n in adv]}" if adv else f"no statement after the id site (in the same block) advances `{cvar}`: every worker gets the same ids")
+        D.ob("O2.4", name, False, IL, f"no statement of the loop over the workers advances `{cvar}`: every worker gets the same ids")
     cw = [n for n in walk_body(wa) if isinstance(n, (ast.Assign, ast.AugAssign)) and any(u(t) == cvar for t in (n.targets if isinstance(n, ast.Assign) else [n.target]))]
     ok = len(cw) == 2 and any(isinstance(n, ast.Assign) and source.is_const(n.value, 0) and logical_parent(n) is wa for n in cw)
-    chk.ob("O2.4", "c starts at 0, no other writer", ok, cw[0] if cw else wa, f"{len(cw)} writer(s)")
+    D.ob("O2.4", "c starts at 0, no other writer", ok, cw[0] if cw else wa, f"{len(cw)} writer(s) of `{cvar}`", located=bool(cw))
     ok = unfiltered and not guards(IL, stop=kl, path_sensitive=True)
-    chk.ob("O2.4", "every id in the range is assigned (no filter)", ok, IL, "")
-    cpw = kiter.id
+    D.ob("O2.4", "every id in the range is assigned (no filter)", ok, IL, "" if ok else f"`{short(IL, 50)}` is conditional / filtered")
+    cpw = kiter.id if isinstance(kiter, ast.Name) else None
     # the host loop and the values of one iteration
     hl = hostvar = idxvar = None
     for n in walk_body(wa):
@@ -1102,9 +1546,9 @@ def run(chk):
         if isinstance(n, ast.Assign) and len(n.targets) == 1 and isinstance(n.targets[0], ast.Name):
             hdefs[n.targets[0].id] = n.value
     alld = wdefs  # single-assignment locals only: a value inlined from them is the value at every use
-    # k iterates the per-worker counts of THIS host: the list is (re)built inside the host loop
-    ok = cpw in hdefs
-    chk.ob("O2.4", "k ranges over the per-worker client counts", ok, kl, f"for {kname} in {cpw}" + ("" if ok else f": `{cpw}` is not computed inside the loop over the hosts"))
+    # k iterates the per-worker counts of THIS host: the list is (re)built inside the host loop (an expression iterated in place is evaluated per host anyway)
+    ok = cpw is None or cpw in hdefs
+    D.ob("O2.4", "k ranges over the per-worker client counts", ok, kl, f"for {kname} in {u(kiter)}" + ("" if ok else f": `{cpw}` is not computed inside the loop over the hosts"))
     hblk = flat(hl.body)
     decs = [n for n in hblk if isinstance(n, ast.AugAssign) and isinstance(n.op, ast.Sub) and isinstance(n.target, ast.Name)]
     rem = decs[0].target.id if len(decs) == 1 else None
@@ -1117,7 +1561,7 @@ def run(chk):
             left = n_
             for i_, h in enumerate(hosts):
                 share_ = min(math.ceil(n_ / len(hosts)), left)
-                env = {hosts_p: hosts, count_p: n_, hostvar: h}
+                env = {hosts_p: hosts, count_p: n_, hostvar: h, "__funcs__": wfuncs}
                 if idxvar:
                     env[idxvar] = i_
                 if rem:
@@ -1127,66 +1571,352 @@ def run(chk):
         return out
 
     # round robin
-    rr = [n for n in ast.walk(hl) if isinstance(n, ast.AugAssign) and isinstance(n.target, ast.Subscript) and u(n.target.value) == cpw]
-    slots = share = None
+    RR, SLOTS, ONE = "round-robin: count[i % slots] += 1 for i in range(share)", "worker slots per host == the host's core count", "one counter per worker slot"
+    rr = [n for n in ast.walk(hl) if cpw is not None and isinstance(n, ast.AugAssign) and isinstance(n.target, ast.Subscript) and u(n.target.value) == cpw]
+    share = None
     if rr:
-        sl = rr[0].target.slice
+        sl = inline_node(rr[0].target.slice, {k_: v_ for k_, v_ in hdefs.items() if k_ in wdefs})
         lp = source.enclosing(rr[0], ast.For)
         ok = isinstance(sl, ast.BinOp) and isinstance(sl.op, ast.Mod) and lp is not None and isinstance(lp.target, ast.Name) and u(sl.left) == lp.target.id and source.is_const(rr[0].value, 1) \
             and isinstance(rr[0].op, ast.Add) and _range_bound(lp.iter) is not None and not guards(rr[0], stop=lp, path_sensitive=True)
         slots = sl.right if ok else None
         share = _range_bound(lp.iter) if ok else None
-        chk.ob("O2.4", "round-robin: count[i % slots] += 1 for i in range(share)", ok, rr[0], short(rr[0], 60))
+        D.ob("O2.4", RR, ok, rr[0], short(rr[0], 60) + ("" if ok else f" in `for {u(lp.target)} in {short(lp.iter, 40)}`: not of the form count[i % slots] += 1 for i in range(share)" if lp is not None else ""))
         cd = hdefs.get(cpw)
-        if slots is not None:
+        if slots is None:
+            # the counting statement has another shape: slots are decided on the result of the whole function
+            D.ob("O2.4", SLOTS, False, rr[0], "worker slots not located", located=False)
+            D.ob("O2.4", ONE, False, rr[0], "worker slots not located", located=False)
+        else:
             try:
                 bad = next((t for t in host_values(slots) if t[1] != t[3]), None)
-                chk.ob("O2.4", "worker slots per host == the host's core count", bad is None, slots, f"slots = {inline(slots, alld)}" + ("" if bad is None else f" = {bad[1]} for {bad[0]}"))
+                D.ob("O2.4", SLOTS, bad is None, slots, f"slots = {inline(slots, alld)}" + ("" if bad is None else f" = {bad[1]} for {bad[0]}"))
             except me.CannotEval as x:
-                chk.unknown("O2.4", f"worker slots `{u(slots)}` cannot be evaluated for representative hosts ({x})", slots)
+                D.unknown("O2.4", SLOTS, f"worker slots `{u(slots)}` cannot be evaluated for representative hosts ({x})", slots)
             if cd is None:
-                chk.unknown("O2.4", f"definition of the per-worker counts `{cpw}` inside the host loop not recognised", hl)
+                D.ob("O2.4", ONE, False, hl, f"definition of the per-worker counts `{cpw}` inside the host loop not located", located=False)
             else:
-                zero, cnt = (cd.left, cd.right) if isinstance(cd, ast.BinOp) and isinstance(cd.left, ast.List) else ((cd.right, cd.left) if isinstance(cd, ast.BinOp) and isinstance(cd.right, ast.List) else (None, None))
-                ok = isinstance(cd, ast.BinOp) and isinstance(cd.op, ast.Mult) and zero is not None and len(zero.elts) == 1 and source.is_const(zero.elts[0], 0) and inline(cnt, alld) == inline(slots, alld)
-                if not ok and isinstance(cd, ast.ListComp):
-                    try:
-                        ok = all(v == [0] * c_ for _, v, _, c_ in host_values(cd)) and inline(_range_bound(cd.generators[0].iter) or cd, alld) == inline(slots, alld)
-                    except me.CannotEval:
-                        ok = False
-                chk.ob("O2.4", "one counter per worker slot", ok, cd, short(cd, 60))
+                # the counters start as one 0 per slot: on values
+                try:
+                    bad = next((t for t in host_values(cd) if t[1] != [0] * t[3]), None)
+                    D.ob("O2.4", ONE, bad is None, cd, short(cd, 60) + ("" if bad is None else f" = {bad[1]} for {bad[0]}"))
+                except me.CannotEval as x:
+                    D.unknown("O2.4", ONE, f"initial per-worker counts `{short(cd, 50)}` cannot be evaluated for representative hosts ({x})", cd)
     else:
-        # the per-worker counts computed in one expression: decided on values (share dealt round-robin over one slot per core)
-        cd = hdefs.get(cpw)
+        # the per-worker counts computed in one expression (possibly by a helper function): decided on values (share dealt round-robin over one slot per core)
+        cd = hdefs.get(cpw) if cpw is not None else kiter
         if cd is None:
             raise AnchorMissing(f"per-worker client counts `{cpw}`: neither `{cpw}[i % slots] += 1` nor a definition inside the host loop")
         try:
             vals = host_values(cd)
             bad = next((t for t in vals if not isinstance(t[1], list) or t[1] != _round_robin(t[2], t[3])), None)
             bad_len = next((t for t in vals if not isinstance(t[1], list) or len(t[1]) != t[3]), None)
-            chk.ob("O2.4", "round-robin: count[i % slots] += 1 for i in range(share)", bad is None, cd,
-                   f"{cpw} = {short(cd, 60)}" + ("" if bad is None else f" = {bad[1]} for {bad[0]} (share {bad[2]}): expected {_round_robin(bad[2], bad[3])}"))
-            chk.ob("O2.4", "worker slots per host == the host's core count", bad_len is None, cd, "" if bad_len is None else f"{bad_len[1]} for {bad_len[0]}")
-            chk.ob("O2.4", "one counter per worker slot", bad_len is None, cd, "")
+            D.ob("O2.4", RR, bad is None, cd, f"{short(cd, 60)}" + ("" if bad is None else f" = {bad[1]} for {bad[0]} (share {bad[2]}): expected {_round_robin(bad[2], bad[3])}"))
+            D.ob("O2.4", SLOTS, bad_len is None, cd, "" if bad_len is None else f"{bad_len[1]} for {bad_len[0]}")
+            D.ob("O2.4", ONE, bad_len is None, cd, "" if bad_len is None else f"{bad_len[1]} for {bad_len[0]}")
         except me.CannotEval as x:
-            chk.unknown("O2.4", f"per-worker client counts `{cpw} = {short(cd, 50)}` cannot be evaluated for representative hosts ({x})", cd)
+            for name in (RR, SLOTS, ONE):
+                D.unknown("O2.4", name, f"per-worker client counts `{short(cd, 50)}` cannot be evaluated for representative hosts ({x})", cd)
     # per-host share: what is dealt out to the workers of a host (the round-robin bound) / taken off the remaining count
+    SH, DEC, INI = "per-host share == min(ceil(n / hosts), remaining)", "remaining -= share (the same amount that was assigned)", "remaining starts at the client count"
     if rem is None:
-        chk.unknown("O2.4", f"the count of clients still to be placed (a local decreased once per host) is not recognised in the host loop ({[short(n, 40) for n in decs]})", hl)
+        for name in (SH, DEC, INI):
+            D.ob("O2.4", name, False, hl, f"the count of clients still to be placed (ONE local decreased once per host) is not located in the host loop ({[short(n, 40) for n in decs]})", located=False)
     else:
         dec = decs[0]
         share_e = share if share is not None else dec.value
         try:
             bad = next((t for t in host_values(share_e) if t[1] != t[2]), None)
-            chk.ob("O2.4", "per-host share == min(ceil(n / hosts), remaining)", bad is None, hdefs.get(u(share_e), share_e),
-                   f"share = {inline(share_e, alld)}" + ("" if bad is None else f" = {bad[1]} for {bad[0]}: expected {bad[2]}"))
+            D.ob("O2.4", SH, bad is None, hdefs.get(u(share_e), share_e), f"share = {inline(share_e, alld)}" + ("" if bad is None else f" = {bad[1]} for {bad[0]}: expected {bad[2]}"))
         except me.CannotEval as x:
-            chk.unknown("O2.4", f"per-host share `{inline(share_e, alld)}` cannot be evaluated for representative hosts ({x})", share_e)
+            D.unknown("O2.4", SH, f"per-host share `{inline(share_e, alld)}` cannot be evaluated for representative hosts ({x})", share_e)
         ok = inline(dec.value, alld) == inline(share_e, alld)
-        chk.ob("O2.4", "remaining -= share (the same amount that was assigned)", ok, dec, short(dec, 60))
+        if not ok:
+            # spelled differently: the same VALUE for every representative host?
+            try:
+                ok = [t[1] for t in host_values(dec.value)] == [t[1] for t in host_values(share_e)]
+            except me.CannotEval:
+                ok = False
+        D.ob("O2.4", DEC, ok, dec, short(dec, 60))
         ri = [n for n in walk_body(wa) if isinstance(n, ast.Assign) and any(u(t) == rem for t in n.targets)]
         ok = len(ri) == 1 and inline(ri[0].value, wdefs) == count_p and not any(x is hl for x in source.ancestors(ri[0]))
-        chk.ob("O2.4", "remaining starts at the client count", ok, ri[0] if ri else wa, short(ri[0], 50) if ri else f"`{rem}` is never initialised")
+        D.ob("O2.4", INI, ok, ri[0] if ri else wa, short(ri[0], 50) if ri else f"no assignment to `{rem}` located", located=bool(ri))
+
+
+_AK = f"{_D}:Allocator.allocations:"
+_MATRIX_OBS = [
+    ("O2.2", "row subscript of", ("rows",), None),
+    ("O2.2", "row subscripts located", ("rows",), None),
+    ("O2.2", "all moduli in the schedule loop are the row count", ("rows", "aligned"), None),
+    ("O2.2", "every row of the matrix is a list of its own", ("own_rows",), None),
+    ("O2.3", "client loop == range(s, s + sub_task.clients)", ("tiling",), None),
+    ("O2.3", "s += sub_task.clients after the client loop (same count)", ("tiling",), None),
+    ("O2.3", "s starts at 0 for each schedule element", ("tiling",), None),
+    ("O2.3", "task := the sub-task", ("task",), None),
+    ("O2.3", "task-local client index == i - s", ("local",), None),
+    ("O2.3", "global client index == i", ("tiling",), None),
+    ("O2.3", "total clients == the element's client count", ("total",), None),
+    ("O2.3", "s not written elsewhere inside the sub-task loop", ("tiling",), None),
+    ("O2.7", "completing / any-completing clients recorded by physical index under the sub-task's own flag", ("announce",), None),
+    ("O2.8", "the row of a client wraps at the element's own client count", ("elem_rows",), _AK + "element-modulus"),
+    ("O2.8", "the None padding completes rounds of the element's own client count", ("elem_rounds",), _AK + "element-padding-bound"),
+]
+
+
+def _matrix_roles(M, drv):
+    """O2.2 / O2.3 / O2.7 (recording) / O2.8 on the located roles of the matrix builder (_Alloc); an obligation whose role has another shape than the enumerated one is handed
+    to the decider M (decided on the matrices of representative schedules)."""
+    A = _Alloc(drv)
+    b, defs, L, elem, matrix, rc_text, SL, CL, sub, svar = A.b, A.defs, A.L, A.elem, A.matrix, A.rc_text, A.SL, A.CL, A.sub, A.svar
+
+    # ---- O2.2 row index reduced -------------------------------------------------------------------------------------------------------
+    row_mods = []  # (append to a matrix row inside the client loops, the `i % m` its row index is defined as or None)
+    ta_apps = []
+    for n in ast.walk(L):
+        if isinstance(n, ast.Call) and last_attr(n.func) == "append" and isinstance(n.func, ast.Attribute) and isinstance(n.func.value, ast.Subscript) and u(n.func.value.value) == matrix:
+            ta_apps.append(n)
+    ldefs = {}
+    for n in ast.walk(L):
+        if isinstance(n, ast.Assign) and len(n.targets) == 1 and isinstance(n.targets[0], ast.Name):
+            ldefs.setdefault(n.targets[0].id, []).append(n.value)
+
+    def rows_on_values(idx):
+        """the row index over the client loop is (element-wide index) % <row count> — or % <element's client count> — for every representative case: True / False; None: cannot
+        be evaluated"""
+        try:
+            got = [(c, A.series(idx, c)) for c in _CASES]
+        except me.CannotEval:
+            return None
+        return all(v == [g % c[3] for g in range(c[0], c[0] + c[1])] for c, v in got) or all(v == [g % c[2] for g in range(c[0], c[0] + c[1])] for c, v in got)
+
+    n_checked = 0
+    rows_ok = True
+    for a in ta_apps:
+        idx = a.func.value.slice
+        loop = source.enclosing(a, ast.For)
+        if loop is L or loop is None:
+            continue
+        if isinstance(loop.iter, ast.Call) and last_attr(loop.iter.func) == "range" and len(loop.iter.args) in (1, 2) and inline(loop.iter.args[-1], defs) == rc_text \
+                and isinstance(idx, ast.Name) and isinstance(loop.target, ast.Name) and idx.id == loop.target.id:
+            # index is a loop variable bounded above by the row count (join-point broadcast / None padding)
+            continue
+        if not any(x is CL for x in source.ancestors(a)):
+            continue  # not inside the client loop (another broadcast / padding shape): the padding is the business of the moduli obligation below
+        n_checked += 1
+        d = ldefs.get(idx.id, [None])[0] if isinstance(idx, ast.Name) else idx
+        is_mod = isinstance(d, ast.BinOp) and isinstance(d.op, ast.Mod)
+        # in range either way: reduced modulo the row count itself, or modulo a bound decided (on values) to be the element's own client count, which is at most the row count
+        ok = is_mod and (u(A.prep(d.right)) == "__rows__" or _is_element_count(d.right, A))
+        on_values = None if ok else rows_on_values(idx)  # another spelling (a helper, a conditional wrap, divmod ...): the VALUES of the row index over the client loop
+        ok = ok or on_values is True
+        rows_ok = rows_ok and ok
+        row_mods.append((a, d if is_mod else None, d))
+        M.ob("O2.2", f"row subscript of `{short(a, 50)}`", ok, a, f"index `{u(idx)}` = `{u(d) if d is not None else '?'}`; row count = {rc_text}"
+             + ("" if ok else " — not reduced modulo the row count (nor modulo the element's own client count)"), located=is_mod or on_values is False)
+    if n_checked == 0:
+        raise AnchorMissing(f"append of the task allocation to a row `{matrix}[<row>]` inside the client loop")
+    M.ob("O2.2", "row subscripts located", n_checked >= 1, L, f"{n_checked} non-broadcast row subscript(s)")
+    # every modulus applied to the element's client indices in the loop (row subscript, None padding; also inside helpers called from the loop)
+    wraps = _wrap_bounds(A)
+    mods = [(n, right) for n, _, right in wraps if isinstance(n.op, ast.Mod)]
+
+    def canon(e):
+        # text of an expression with locals inlined and every spelling of the row count (`self.clients`, `len(<matrix>)`, a local bound to either) unified
+        return u(A.prep(e))
+
+    MODS = "all moduli in the schedule loop are the row count"
+    ok = bool(mods) and all(canon(r_) == "__rows__" for _, r_ in mods)
+    if not ok and mods and row_mods and all(d is not None for _, d, _ in row_mods):
+        # rows that wrap at the element's own client count: every other modulus of the loop (the padding) must then be that same bound
+        sub_ = {canon(d.right) for _, d, _ in row_mods}
+        ok = len(sub_) == 1 and all(_is_element_count(d.right, A) for _, d, _ in row_mods) and all(canon(r_) in sub_ for _, r_ in mods)
+    if mods:
+        M.ob("O2.2", MODS, ok, mods[0][0], f"{sorted({u(r_) for _, r_ in mods})}")
+    else:
+        # no modulus at all in the loop: unreduced row subscript(s) were reported above; rows that are right on values without a modulus: how the padding wraps is not located
+        M.ob("O2.2", MODS, False, L, "no modulus on the client indices in the schedule loop", located=not rows_ok)
+    # rows are distinct lists (a `[[]] * n` matrix has ONE row object: every client would get every task)
+    OWN = "every row of the matrix is a list of its own"
+    if A.matrix_form == "comprehension":
+        fresh = _is_fresh_list(A.matrix_stmt.value.elt) or isinstance(A.matrix_stmt.value.elt, (ast.List, ast.ListComp))
+        M.ob("O2.2", OWN, fresh, A.matrix_stmt, short(A.matrix_stmt, 70))
+    else:
+        fills = [n for n in walk_body(b) if isinstance(n, ast.Assign) and len(n.targets) == 1 and isinstance(n.targets[0], ast.Subscript) and u(n.targets[0].value) == matrix
+                 and (_is_fresh_list(n.value) or isinstance(n.value, ast.List)) and not any(x is L for x in source.ancestors(n))]
+        full = [n for n in fills if (lp := source.enclosing(n, ast.For)) is not None and _range_bound(lp.iter) is not None and inline(_range_bound(lp.iter), defs) == rc_text
+                and isinstance(lp.target, ast.Name) and u(n.targets[0].slice) == lp.target.id]
+        rep = A.matrix_stmt.value.left if isinstance(A.matrix_stmt.value.left, ast.List) else A.matrix_stmt.value.right
+        if full:
+            M.ob("O2.2", OWN, True, full[0], f"`{short(A.matrix_stmt, 50)}` filled by `{short(full[0], 40)}` for every row")
+        elif isinstance(rep.elts[0], (ast.List, ast.ListComp, ast.Call)):
+            M.ob("O2.2", OWN, False, A.matrix_stmt, f"`{short(A.matrix_stmt, 60)}` repeats ONE list object for every row: each client gets the tasks of all clients")
+        else:
+            M.unknown("O2.2", OWN, f"rows of `{short(A.matrix_stmt, 50)}`: the statement that gives every row its own list is not recognised", A.matrix_stmt)
+
+    # ---- O2.3 per-task tiling ----------------------------------------------------------------------------------------------------------------
+    i_txt = inline(A.arg("global"), A.cdefs) if A.arg("global") is not None else A.loopvar
+    dividends = [d.left for _, d, _ in row_mods if d is not None]
+    NAME = "client loop == range(s, s + sub_task.clients)"
+    try:
+        ok, w = A.holds_all(lambda c: len(A.iterations(*c)) == c[1] and all(A.series(dv, c) == list(range(c[0], c[0] + c[1])) for dv in dividends))
+        detail = u(CL.iter) + ("" if ok else f": {len(A.iterations(*w))} iteration(s), row dividend(s) {[A.series(dv, w) for dv in dividends]} for a {_case_txt(w)}")
+        M.ob("O2.3", NAME, ok, CL, detail)
+    except me.CannotEval as x:
+        M.unknown("O2.3", NAME, f"client loop `{u(CL.iter)}` cannot be evaluated on representative values ({x})", CL)
+    NAME = "s += sub_task.clients after the client loop (same count)"
+    adv_ok, adv_detail = _offset_advance(A)
+    if adv_ok is None:
+        M.unknown("O2.3", NAME, adv_detail, SL)
+    else:
+        M.ob("O2.3", NAME, adv_ok, A.advances[0] if A.advances else SL, adv_detail)
+    ini = _offset_init(A)
+    M.ob("O2.3", "s starts at 0 for each schedule element", ini is not None, ini if ini is not None else L, "" if ini is not None else f"no `{svar} = 0` in the per-element block before the sub-task loop",
+         located=False)
+    tk, loc, gl, tot = A.arg("task"), A.arg("local"), A.arg("global"), A.arg("total")
+    if None in (tk, loc, gl, tot):
+        raise AnchorMissing("arguments of TaskAllocation(...) in the client loop")
+    M.ob("O2.3", "task := the sub-task", inline(tk, A.cdefs) == sub, A.tac, f"task = {u(tk)}")
+    for NAME, pred, expr, txt in (
+            ("task-local client index == i - s",
+             lambda c: [lv - (gv - c[0]) for lv, gv in zip(A.series(loc, c), A.series(gl, c))] == [0] * len(A.iterations(*c)) and A.series(loc, c) == list(range(len(A.iterations(*c)))), loc,
+             lambda w: f" = {A.series(loc, w)} where the element-wide indices are {A.series(gl, w)} for a {_case_txt(w)}"),
+            ("global client index == i", lambda c: A.series(gl, c) == list(range(c[0], c[0] + len(A.iterations(*c)))), gl, lambda w: f" = {A.series(gl, w)} for a {_case_txt(w)}"),
+            ("total clients == the element's client count", lambda c: all(v == c[2] for v in A.series(tot, c)), tot, lambda w: f" = {A.series(tot, w)} for a {_case_txt(w)}")):
+        try:
+            ok, w = A.holds_all(pred)
+            M.ob("O2.3", NAME, ok, A.tac, u(expr) + ("" if ok else txt(w)))
+        except me.CannotEval as x:
+            M.unknown("O2.3", NAME, f"argument `{short(expr, 50)}` of `{short(A.tac, 50)}` cannot be evaluated over the client loop ({x})", A.tac)
+    other_s = [n for n in ast.walk(SL) if isinstance(n, (ast.Assign, ast.AugAssign)) and any(isinstance(x, ast.Name) and x.id == svar for t in (n.targets if isinstance(n, ast.Assign) else [n.target]) for x in ast.walk(t))
+               and not any(n is x for x in A.advances[:1])]
+    M.ob("O2.3", "s not written elsewhere inside the sub-task loop", not other_s, other_s[0] if other_s else SL, "" if not other_s else f"`{short(other_s[0], 50)}`")
+
+    # ---- O2.7 completing clients ------------------------------------------------------------------------------------------------------------------------
+    NAME = "completing / any-completing clients recorded by physical index under the sub-task's own flag"
+    jp, jlists = _joinpoint_lists(A)
+    row_idx = [a.func.value.slice for a, _, _ in row_mods]
+    recs = []
+    for lst in jlists:
+        r_ = [n for n in ast.walk(CL) if isinstance(n, ast.Call) and last_attr(n.func) == "append" and isinstance(n.func, ast.Attribute) and u(n.func.value) == u(lst) and len(n.args) == 1]
+        if not r_:
+            raise AnchorMissing(f"append to the join-point client list `{u(lst)}` inside the client loop")
+        recs.append(r_)
+    try:
+        problems = []
+        for k, r_ in enumerate(recs):
+            for app in r_:
+                # recorded value == the row the allocation is appended to
+                okv, w = A.holds_all(lambda c: all(A.series(app.args[0], c) == A.series(ri, c) for ri in row_idx))
+                if not okv:
+                    problems.append(f"`{short(app, 60)}` records {A.series(app.args[0], w)} where the rows are {A.series(row_idx[0], w)} for a {_case_txt(w)}")
+            # recorded under the sub-task's own flag
+            for cp, acp in ((True, False), (False, True), (False, False), (True, True)):
+                its = A.iterations(2, 1, 4, 6, flags=(cp, acp))
+                if not its:
+                    raise me.CannotEval("the client loop does not run for a sub-task with one client")
+                env = its[0]
+                hit = sum(1 for app in r_ if all(bool(A.value(t, env)) == pol for t, pol in guards(app, stop=CL, path_sensitive=True)))
+                want = (1 if cp else 0) if k == 0 else (None if (cp and acp) else (1 if acp else 0))
+                if want is not None and hit != want:
+                    problems.append(f"`{u(jlists[k])}` gets {hit} entr{'y' if hit == 1 else 'ies'} per client of a sub-task with completes_parent={cp}, any_completes_parent={acp} (expected {want})")
+        M.ob("O2.7", NAME, not problems, recs[0][0], "; ".join(problems[:2]) or f"{[u(x) for x in jlists]}")
+    except me.CannotEval as x:
+        M.unknown("O2.7", NAME, f"recording of the completing clients cannot be evaluated on representative values ({x})", recs[0][0])
+
+    # ---- O2.8 an element occupies only its own clients (F45) -----------------------------------------------------------------------------------------
+    def _first_other(vals):
+        # a witness (e, R, value) with value != e; the capped pair of the item (2 clients next to a 4-client element) is shown when it is one
+        return next(((e_, r_, v_) for e_, r_, v_ in sorted(vals, key=lambda t: (t[:2] != (2, 4),)) if v_ != e_), None)
+
+    WRAP, PAD = "the row of a client wraps at the element's own client count", "the None padding completes rounds of the element's own client count"
+    for k_, (a, d, raw) in enumerate(row_mods):
+        key_ = _AK + "element-modulus" + ("" if k_ == 0 else f":{k_}")
+        if d is None:
+            if raw is not None and inline(raw, A.cdefs) == i_txt:
+                # the logical (element-wide) index itself: the element is spread over as many rows as its sub-tasks have clients in total
+                M.state("O2.8", WRAP, False, a, f"row index `{u(a.func.value.slice)}` is the unreduced element-wide client index `{i_txt}`", key=key_)
+            else:
+                M.unknown("O2.8", WRAP, f"row index `{u(a.func.value.slice)}` = `{u(raw) if raw is not None else '?'}` is not of the form `<client index> % <bound>`", a, key=key_)
+            continue
+        try:
+            txt, vals = _bound_values(d.right, A)
+        except me.CannotEval as x:
+            M.unknown("O2.8", WRAP, f"modulus `{u(d.right)}` of the row subscript is not an expression over the row count and `{elem}.clients` ({x})", d, key=key_)
+            continue
+        w = _first_other(vals)
+        M.state("O2.8", WRAP, w is None, d,
+                f"modulus `{u(d.right)}` = {txt}" + ("" if w is None else f": an element with {w[0]} client(s) in a schedule whose widest element has {w[1]} wraps at {w[2]}, "
+                                                     f"i.e. is spread over up to {w[2]} clients instead of {w[0]}"), key=key_)
+    # every other wrap / round computation on the element's client indices (modulus, divisor) inside the per-element loop: the None padding
+    taken = {id(d) for _, d, _ in row_mods if d is not None}
+    bounds = [(n, right) for n, _, right in wraps if id(n) not in taken]
+    wrong, undecided = [], []
+    for n, right in bounds:
+        try:
+            txt, vals = _bound_values(right, A)
+        except me.CannotEval as x:
+            undecided.append((n, str(x)))
+            continue
+        w = _first_other(vals)
+        if w is not None:
+            wrong.append((n, txt, w))
+    if wrong or not undecided:
+        M.state("O2.8", PAD, not wrong, wrong[0][0] if wrong else (bounds[0][0] if bounds else L),
+                (f"{len(bounds)} wrap bound(s) on the element's client total outside the row subscript: {sorted({u(n) for n, _ in bounds})}" if not wrong else
+                 f"`{u(wrong[0][0])}` wraps at {wrong[0][1]}: for an element with {wrong[0][2][0]} client(s) in a schedule whose widest element has {wrong[0][2][1]} the bound is "
+                 f"{wrong[0][2][2]}; {len(wrong)} of {len(bounds)} bound(s) differ from the element's client count"), key=_AK + "element-padding-bound")
+    else:
+        M.unknown("O2.8", PAD, f"padding bound `{u(undecided[0][0])}` is not an expression over the row count and `{elem}.clients` ({undecided[0][1]})", undecided[0][0], key=_AK + "element-padding-bound")
+
+
+def run(chk):
+    repo = chk.repo
+    drv, trk = repo.module(_D), repo.module(_T)
+    chk.use(drv, trk)
+    chk.explanation = (
+        "Decides the allocation arithmetic on roles located by data flow and on representative values: join-point / entry agreement (the emission condition of a per-step entry "
+        "evaluated over entry kind x row x column x accumulator state); matrix rows addressed modulo the row count (the same modulus for tasks and padding) and, decided on "
+        "representative (element clients, row count) values, whether that modulus and the padding bound are the element's own client count (O2.8, client cap of a parallel element); per-task "
+        "client ranges telescope (the client loop evaluated for representative offsets / client counts: element-wide indices s..s+n-1, task-local 0..n-1, offset advanced by n); worker "
+        "partition tiles 0..n-1 contiguously (range(c, c+k), c += k), per-host share = min(ceil(n/hosts), remaining) evaluated over a simulated host loop, with remaining decreased by "
+        "the same amount, round-robin per core; worker ids are list positions; a parallel element's client count is computed on demand from its current sub-tasks (evaluated)."
+    )
+    chk.not_decided = "rectangularity of the matrix for all shapes (None-padding arithmetic), the per-host ceil split summing to the total for all inputs (guarded by a run-time assert), balance across hosts."
+    step_entry_agreement(chk, drv, "O2.1")
+
+    # ---- O2.2 / O2.3 / O2.7 / O2.8: the allocation matrix ----------------------------------------------------------------------------------------------------
+    chk.rule("O2.2", "every row subscript of the matrix inside the per-client loop is `<client index> % <row count>` (or `% <the element's own client count>`, which never exceeds the "
+             "row count: see O2.8), and the None padding wraps at the same modulus; every row of the matrix is a list of its own", 3,
+             "over-committed parallel element inside a schedule with a wider element: rows addressed modulo the wrong count -> ragged matrix / IndexError")
+    chk.rule("O2.3", "for each sub-task the client loop runs over the element-wide client indices s .. s + <sub-task>.clients - 1 (each once) and s is advanced by the same <sub-task>.clients "
+             "after the loop; task-local index == i - s; global index == i; total clients == <element>.clients; s starts at 0 for each element (decided on the values the extracted loop "
+             "bounds / constructor arguments take for representative offsets and client counts)", 6,
+             "parallel element with two tasks: a client index of the second task is used twice or never")
+    chk.rule("O2.7", "the clients recorded on a join point as executing the completing task (or an `any` task) are the PHYSICAL row indices of exactly those sub-tasks; the row count is the "
+             "maximum client count over all schedule elements (at least 1)", 4,
+             "completed-by waits for the wrong clients (over-committed element), or the matrix has fewer rows than the widest element")
+    chk.rule("O2.8", "a schedule element occupies exactly the clients it requests: the matrix row of an element-wide client index is that index modulo the ELEMENT's own client count "
+             "(<element>.clients, at most the row count) and the None padding completes rounds of that same count; wrapping at the schedule-wide row count only honours the client "
+             "cap of a parallel element that happens to be the widest element of the schedule", 2,
+             "a parallel element that caps its clients (`clients: N` below the sum of its sub-tasks' clients) next to a wider schedule element: its sub-tasks are spread over up to "
+             "<row count> clients and run concurrently instead of in rounds of N (more load than requested; total_clients / ramp-up still computed from N)")
+    M = _Decider(chk, _matrix_sim(drv), _MATRIX_OBS)
+    try:
+        _matrix_roles(M, drv)
+    except AnchorMissing as x:
+        # a role of the builder is not located: the obligations not yet stated are decided on the matrices the allocator yields for representative schedules
+        M.rest(x, drv.cls("Allocator"))
+    from rules.C05 import partition_call_rule
+
+    partition_call_rule(chk, "O2.3", drv)
+    joinpoint_lists_reset(chk, "O2.7", drv)
+    client_floor_rule(chk, "O2.7", drv)
+
+    # ---- O2.4 worker partition tiles ---------------------------------------------------------------------------------------------------------------------
+    chk.rule("O2.4", "worker assignment: client ids come from range(c, c + k) with c += k (same k) afterwards, c starts at 0 and is written nowhere else; per-host share == "
+             "min(ceil(n / hosts), remaining) and remaining -= that share; worker slots per host == its core count; per-host split is round-robin count[i % slots] += 1", 8,
+             "client ids lost/duplicated or ids >= n handed out (e.g. 5 clients on 4 hosts), more than one worker per core, uneven worker loads")
+    worker_partition(chk, "O2.4", drv)
 
     # ---- O2.5 worker ids are positions -------------------------------------------------------------------------------------------------------------------
     chk.rule("O2.5", "the counter passed as worker id is incremented exactly on the paths that append to the worker list (ids == list positions); each client is recorded under that worker id", 3,
@@ -1231,7 +1961,11 @@ def run(chk):
     else:
         chk.ob("O2.5", "clients_per_worker[client] := this worker id", u(cpw_[0].value) == wid and u(cpw_[0].targets[0].slice) == clv, cpw_[0], short(cpw_[0], 60))
     # the matrix attribute of the driver: assigned from the allocator's builder property
-    mattr = {t.attr for n in walk_body(sb) if isinstance(n, ast.Assign) and isinstance(n.value, ast.Attribute) and n.value.attr == b.name for t in n.targets if is_self_attr(t)}
+    try:
+        bname = _builder(drv).name
+    except AnchorMissing:
+        bname = None  # (the builder delegates the constructions to helpers: the row argument is then only required to be a subscript by the client)
+    mattr = {t.attr for n in walk_body(sb) if isinstance(n, ast.Assign) and isinstance(n.value, ast.Attribute) and n.value.attr == bname for t in n.targets if is_self_attr(t)}
     row = al[0].args[1]
     ok = isinstance(row, ast.Subscript) and u(row.slice) == clv and (not mattr or (is_self_attr(row.value) and row.value.attr in mattr))
     chk.ob("O2.5", "each client gets its own matrix row", ok, al[0], short(al[0], 70))
@@ -1284,7 +2018,10 @@ def run(chk):
         chk.unknown("O2.6", f"Parallel.clients cannot be evaluated on representative elements ({x})", pc)
     # the explicit value is the one given at construction: no method of the class (or anything else in the package) rewrites it
     wr = []
-    for m_ in repo.all_modules():
+    for path_ in repo.package_files():
+        if expl_attr not in repo.text(path_):
+            continue  # (an attribute that is stored to occurs in the text of the file: the other files need not be parsed)
+        m_ = repo.module(path_)
         for n in ast.walk(m_.tree):
             tg = n.targets if isinstance(n, ast.Assign) else ([n.target] if isinstance(n, (ast.AugAssign, ast.AnnAssign)) else [])
             for t in tg:
@@ -1294,60 +2031,6 @@ def run(chk):
     bad = [(m_, n) for m_, n in wr if not (source.enclosing_func(n) is pinit)]
     chk.ob("O2.6", f"the explicit client count (`{expl_attr}`) is written only at construction", not bad, bad[0][1] if bad else pinit,
            "" if not bad else f"rewritten in {bad[0][0].relpath}:{source.qualname(bad[0][1])}: `{short(bad[0][1], 60)}`", key=f"esrally/track/track.py:Parallel:{expl_attr}:writers")
-
-    # ---- O2.8 an element occupies only its own clients (F45) -----------------------------------------------------------------------------------------
-    chk.rule("O2.8", "a schedule element occupies exactly the clients it requests: the matrix row of an element-wide client index is that index modulo the ELEMENT's own client count "
-             "(<element>.clients, at most the row count) and the None padding completes rounds of that same count; wrapping at the schedule-wide row count only honours the client "
-             "cap of a parallel element that happens to be the widest element of the schedule", 2,
-             "a parallel element that caps its clients (`clients: N` below the sum of its sub-tasks' clients) next to a wider schedule element: its sub-tasks are spread over up to "
-             "<row count> clients and run concurrently instead of in rounds of N (more load than requested; total_clients / ramp-up still computed from N)")
-
-    def _first_other(vals):
-        # a witness (e, R, value) with value != e; the capped pair of the item (2 clients next to a 4-client element) is shown when it is one
-        return next(((e_, r_, v_) for e_, r_, v_ in sorted(vals, key=lambda t: (t[:2] != (2, 4),)) if v_ != e_), None)
-
-    if not row_mods:
-        raise AnchorMissing("row subscript of the task allocations in the client loop of the matrix builder")
-    for k_, (a, d, raw) in enumerate(row_mods):
-        key_ = f"{_D}:Allocator.allocations:element-modulus" + ("" if k_ == 0 else f":{k_}")
-        if d is None:
-            if raw is not None and inline(raw, A.cdefs) == i_txt:
-                # the logical (element-wide) index itself: the element is spread over as many rows as its sub-tasks have clients in total
-                chk.ob("O2.8", "the row of a client wraps at the element's own client count", False, a, f"row index `{u(a.func.value.slice)}` is the unreduced element-wide client index `{i_txt}`", key=key_)
-            else:
-                chk.unknown("O2.8", f"row index `{u(a.func.value.slice)}` = `{u(raw) if raw is not None else '?'}` is not of the form `<client index> % <bound>`", a)
-            continue
-        try:
-            txt, vals = _bound_values(d.right, A)
-        except me.CannotEval as x:
-            chk.unknown("O2.8", f"modulus `{u(d.right)}` of the row subscript is not an expression over the row count and `{elem}.clients` ({x})", d)
-            continue
-        w = _first_other(vals)
-        chk.ob("O2.8", "the row of a client wraps at the element's own client count", w is None, d,
-               f"modulus `{u(d.right)}` = {txt}" + ("" if w is None else f": an element with {w[0]} client(s) in a schedule whose widest element has {w[1]} wraps at {w[2]}, "
-                                                    f"i.e. is spread over up to {w[2]} clients instead of {w[0]}"), key=key_)
-    # every other wrap / round computation on the element's client indices (modulus, divisor) inside the per-element loop: the None padding
-    taken = {id(d) for _, d, _ in row_mods if d is not None}
-    bounds = [(n, right) for n, _, right in wraps if id(n) not in taken]
-    wrong, undecided = [], []
-    for n, right in bounds:
-        try:
-            txt, vals = _bound_values(right, A)
-        except me.CannotEval as x:
-            undecided.append((n, str(x)))
-            continue
-        w = _first_other(vals)
-        if w is not None:
-            wrong.append((n, txt, w))
-    if undecided:
-        chk.unknown("O2.8", f"padding bound `{u(undecided[0][0])}` is not an expression over the row count and `{elem}.clients` ({undecided[0][1]})", undecided[0][0])
-    if wrong or not undecided:
-        chk.ob("O2.8", "the None padding completes rounds of the element's own client count", not wrong, wrong[0][0] if wrong else (bounds[0][0] if bounds else L),
-               (f"{len(bounds)} wrap bound(s) on the element's client total outside the row subscript: {sorted({u(n) for n, _ in bounds})}" if not wrong else
-                f"`{u(wrong[0][0])}` wraps at {wrong[0][1]}: for an element with {wrong[0][2][0]} client(s) in a schedule whose widest element has {wrong[0][2][1]} the bound is "
-                f"{wrong[0][2][2]}; {len(wrong)} of {len(bounds)} bound(s) differ from the element's client count"),
-               key=f"{_D}:Allocator.allocations:element-padding-bound")
-
 
 from sa.selftest import V  # noqa: E402
 
